@@ -119,3 +119,1438 @@ Lemma dec_u32_mod_u31 a b c d :
   a < 256 -> b < 256 -> c < 256 -> d < 256 ->
   dec_u32 a b c d mod 2147483648 = u31_of a b c d.
 Proof. intros. unfold dec_u32, u31_of. lia. Qed.
+
+(* ---------------------------------------------------------------------------------------- *)
+(* per frame type: the model's `load` against the RFC grammar *)
+
+
+Ltac dtest :=
+  match goal with
+  | |- context [if ?a <? ?b then _ else _] => let E := fresh "E" in destruct (a <? b) eqn:E; [apply N.ltb_lt in E | apply N.ltb_ge in E]
+  | |- context [if ?a <=? ?b then _ else _] => let E := fresh "E" in destruct (a <=? b) eqn:E; [apply N.leb_le in E | apply N.leb_gt in E]
+  | |- context [if ?a =? ?b then _ else _] => let E := fresh "E" in destruct (a =? b) eqn:E; [apply N.eqb_eq in E | apply N.eqb_neq in E]
+  end.
+
+Definition mk_head (k fl sid : N) : head := {| h_kind := k; h_flag := fl; h_sid := sid |}.
+
+Lemma data_flags fl :
+  let f := keep_bit fl 1 + keep_bit fl 8 in
+  has_bit f 8 = flag fl 8 /\ has_bit f 1 = flag fl 1 /\ f = bit_if (flag fl 1) 1 + bit_if (flag fl 8) 8.
+Proof.
+  unfold keep_bit. change flag with has_bit.
+  destruct (has_bit fl 1), (has_bit fl 8); vm_compute; auto.
+Qed.
+
+Lemma agree_data k fl sid payload :
+  agree (lift KData sid (data_load (mk_head k fl sid) payload)) (parse_payload T_DATA fl sid payload) = true.
+Proof.
+  unfold parse_payload. change (T_DATA =? T_DATA) with true. cbv iota.
+  unfold data_load. cbn [h_sid h_flag mk_head].
+  destruct (sid =? 0) eqn:Es; [reflexivity|].
+  unfold data_PADDED, data_END_STREAM, F_PADDED, F_END_STREAM.
+  destruct (data_flags fl) as (Hp & He & Hf). cbv zeta in Hp, He, Hf.
+  rewrite Hp. unfold pad_length.
+  destruct (flag fl 8) eqn:Epad.
+  - (* padded *)
+    unfold strip_padding. destruct payload as [|p rest].
+    + reflexivity.
+    + rewrite lenN_cons. 
+      destruct (1 + lenN rest =? 0) eqn:E0; [apply N.eqb_eq in E0; lia|].
+      unfold strip_trailing. change olen with lenN.
+      destruct (1 + lenN rest <=? p) eqn:E1; [apply N.leb_le in E1 | apply N.leb_gt in E1].
+      * destruct (p <=? lenN rest) eqn:E2; [apply N.leb_le in E2; lia|]. reflexivity.
+      * destruct (p <=? lenN rest) eqn:E2; [apply N.leb_le in E2 | apply N.leb_gt in E2; lia].
+        cbn [bind lift agree wire_matches]. unfold data_END_STREAM, data_PADDED.
+        rewrite He, Hp, <- Hf, !N.eqb_refl, Bool.eqb_reflx. cbn [opt_N_eqb eqb andb]. rewrite N.eqb_refl.
+        rewrite take_takeN. replace (1 + lenN rest - p - 1) with (lenN rest - p) by lia.
+        rewrite list_N_eqb_refl. reflexivity.
+  - cbn [strip_trailing lift agree wire_matches]. unfold data_END_STREAM, data_PADDED.
+    rewrite He, Hp, <- Hf, !N.eqb_refl, Bool.eqb_reflx, list_N_eqb_refl. reflexivity.
+Qed.
+
+Lemma strip_agree pad (src : list N) :
+  (if 0 <? pad
+   then if lenN src <? pad then @Err (list N) TooMuchPadding else Ok (takeN (lenN src - pad) src)
+   else Ok src)
+  = match strip_trailing (Some pad) src with Some f => Ok f | None => Err TooMuchPadding end.
+Proof.
+  unfold strip_trailing. change olen with lenN. change take with takeN.
+  destruct (0 <? pad) eqn:E0; [apply N.ltb_lt in E0 | apply N.ltb_ge in E0].
+  - destruct (lenN src <? pad) eqn:E1; [apply N.ltb_lt in E1 | apply N.ltb_ge in E1].
+    + destruct (pad <=? lenN src) eqn:E2; [apply N.leb_le in E2; lia | reflexivity].
+    + destruct (pad <=? lenN src) eqn:E2; [reflexivity | apply N.leb_gt in E2; lia].
+  - assert (pad = 0) by lia. subst pad. cbn [N.leb]. rewrite N.sub_0_r, takeN_lenN.
+    destruct (0 <=? lenN src) eqn:E2; [reflexivity | apply N.leb_gt in E2; lia].
+Qed.
+
+Lemma prio_eqb_mk x i w :
+  prio_eqb {| pf_exclusive := x; pf_dependency := i; pf_weight := w |}
+           {| dep_id := i; dep_weight := w; dep_excl := x |} = true.
+Proof.
+  unfold prio_eqb. cbn [pf_exclusive pf_dependency pf_weight dep_excl dep_id dep_weight].
+  rewrite Bool.eqb_reflx, !N.eqb_refl. reflexivity.
+Qed.
+
+Lemma agree_headers k fl sid payload :
+  bytes_ok payload = true ->
+  agree (lift KHeaders sid (headers_load (mk_head k fl sid) payload)) (parse_payload T_HEADERS fl sid payload) = true.
+Proof.
+  intros Hb.
+  unfold parse_payload. change (T_HEADERS =? T_DATA) with false. change (T_HEADERS =? T_HEADERS) with true. cbv iota.
+  unfold headers_load. cbn [h_sid h_flag mk_head].
+  destruct (sid =? 0) eqn:Es; [reflexivity|].
+  unfold headers_PADDED, headers_PRIORITY, F_PADDED, F_PRIORITY. change flag with has_bit.
+  unfold pad_length.
+  (* normalise the padding step: both sides work on (pad option, src1) *)
+  assert (Hcore : forall (pad : option N) (src1 : list N), bytes_ok src1 = true ->
+    agree (lift KHeaders sid
+      ('(dep, src2) <-
+         (if has_bit fl 32 then
+            if lenN src1 <? 5 then Err MalformedMessage else
+            d <- dependency_load (takeN 5 src1) ;;
+            if dep_id d =? sid then Err InvalidDependencyId else Ok (Some d, dropN 5 src1)
+          else Ok (None, src1)) ;;
+       src3 <- (match pad with
+                | Some p => if 0 <? p then if lenN src2 <? p then Err TooMuchPadding
+                                           else Ok (takeN (lenN src2 - p) src2) else Ok src2
+                | None => Ok src2 end) ;;
+       Ok (FHeaders sid fl dep src3)))
+     (match (if has_bit fl 32 then
+               match parse_priority_fields src1 with Some (p, rest) => Some (Some p, rest) | None => None end
+             else Some (None, src1)) with
+      | None => Reject FRAME_SIZE_ERROR
+      | Some (prio, rest) =>
+          match strip_trailing pad rest with
+          | None => Reject PROTOCOL_ERROR
+          | Some frag =>
+              match prio with
+              | Some p => if pf_dependency p =? sid then Reject PROTOCOL_ERROR
+                          else Accept (WHeaders sid (has_bit fl F_END_STREAM) (has_bit fl F_END_HEADERS) prio frag)
+              | None => Accept (WHeaders sid (has_bit fl F_END_STREAM) (has_bit fl F_END_HEADERS) None frag)
+              end
+          end
+      end) = true).
+  { intros pad src1 Hb1.
+    assert (Hfin : forall dep prio src2, opt_prio_eqb prio dep = true ->
+       agree (lift KHeaders sid
+          (src3 <- (match pad with
+                | Some p => if 0 <? p then if lenN src2 <? p then Err TooMuchPadding
+                                           else Ok (takeN (lenN src2 - p) src2) else Ok src2
+                | None => Ok src2 end) ;; Ok (FHeaders sid fl dep src3)))
+         (match strip_trailing pad src2 with
+          | None => Reject PROTOCOL_ERROR
+          | Some frag => Accept (WHeaders sid (has_bit fl F_END_STREAM) (has_bit fl F_END_HEADERS) prio frag)
+          end) = true).
+    { intros dep prio src2 Hp. destruct pad as [p|].
+      - rewrite strip_agree. destruct (strip_trailing (Some p) src2); [|reflexivity].
+        cbn [bind lift agree wire_matches]. unfold headers_END_STREAM, headers_END_HEADERS, F_END_STREAM, F_END_HEADERS.
+        rewrite N.eqb_refl, !Bool.eqb_reflx, Hp, list_N_eqb_refl. reflexivity.
+      - cbn [strip_trailing bind lift agree wire_matches].
+        unfold headers_END_STREAM, headers_END_HEADERS, F_END_STREAM, F_END_HEADERS.
+        rewrite N.eqb_refl, !Bool.eqb_reflx, Hp, list_N_eqb_refl. reflexivity. }
+    destruct (has_bit fl 32) eqn:Eprio.
+    - destruct src1 as [|a [|b [|c [|d [|w rest]]]]];
+        try (cbn [length lenN parse_priority_fields]; reflexivity).
+      assert (E5 : (lenN (a :: b :: c :: d :: w :: rest) <? 5) = false).
+      { rewrite !lenN_cons. apply N.ltb_ge. lia. }
+      rewrite E5. change (takeN 5 (a :: b :: c :: d :: w :: rest)) with [a; b; c; d; w].
+      change (dropN 5 (a :: b :: c :: d :: w :: rest)) with rest.
+      apply bytes_ok_cons in Hb1 as (Ha & Hb1). apply bytes_ok_cons in Hb1 as (Hb' & Hb1).
+      apply bytes_ok_cons in Hb1 as (Hc & Hb1). apply bytes_ok_cons in Hb1 as (Hd & Hb1).
+      unfold dependency_load. change (lenN [a; b; c; d; w] =? 5) with true. cbn [negb].
+      rewrite (parse_sid_u31 a b c d Ha Hb' Hc Hd). cbn [bind dep_id parse_priority_fields pf_dependency].
+      destruct (u31_of a b c d =? sid) eqn:Edep.
+      + cbn [lift agree]. destruct (strip_trailing pad rest); reflexivity.
+      + cbn [bind]. 
+        specialize (Hfin (Some {| dep_id := u31_of a b c d; dep_weight := w; dep_excl := high_bit a |})
+                         (Some {| pf_exclusive := high_bit a; pf_dependency := u31_of a b c d; pf_weight := w |}) rest).
+        destruct (strip_trailing pad rest) eqn:Est.
+        * apply Hfin. apply prio_eqb_mk.
+        * apply Hfin. apply prio_eqb_mk.
+    - cbn [bind]. specialize (Hfin None None src1 eq_refl).
+      destruct (strip_trailing pad src1); exact Hfin. }
+  destruct (has_bit fl 8) eqn:Epad.
+  - destruct payload as [|p rest]; [reflexivity|].
+    apply bytes_ok_cons in Hb as (_ & Hb). cbn [bind].
+    exact (Hcore (Some p) rest Hb).
+  - cbn [bind]. specialize (Hcore None payload Hb).
+    exact Hcore.
+Qed.
+
+Lemma agree_priority k fl sid payload :
+  bytes_ok payload = true -> sid <> 0 ->
+  agree (lift KPriority sid (priority_load (mk_head k fl sid) payload)) (parse_payload T_PRIORITY fl sid payload) = true.
+Proof.
+  intros Hb Hs.
+  unfold parse_payload.
+  change (T_PRIORITY =? T_DATA) with false. change (T_PRIORITY =? T_HEADERS) with false.
+  change (T_PRIORITY =? T_PRIORITY) with true. cbv iota.
+  apply N.eqb_neq in Hs. rewrite Hs.
+  unfold priority_load, dependency_load. cbn [h_sid mk_head]. change olen with lenN.
+  destruct (lenN payload =? 5) eqn:E5; cbn [negb]; [|reflexivity].
+  apply N.eqb_eq in E5.
+  destruct payload as [|a [|b [|c [|d [|w rest]]]]]; try (cbn in E5; lia).
+  apply bytes_ok_cons in Hb as (Ha & Hb). apply bytes_ok_cons in Hb as (Hb' & Hb).
+  apply bytes_ok_cons in Hb as (Hc & Hb). apply bytes_ok_cons in Hb as (Hd & Hb).
+  rewrite (parse_sid_u31 a b c d Ha Hb' Hc Hd). cbn [bind dep_id parse_priority_fields pf_dependency].
+  destruct (u31_of a b c d =? sid) eqn:Edep; [reflexivity|].
+  cbn [lift agree wire_matches]. rewrite N.eqb_refl, prio_eqb_mk. reflexivity.
+Qed.
+
+Lemma agree_reset k fl sid payload :
+  sid <> 0 ->
+  agree (lift KReset sid (reset_load (mk_head k fl sid) payload)) (parse_payload T_RST_STREAM fl sid payload) = true.
+Proof.
+  intros Hs. unfold parse_payload.
+  change (T_RST_STREAM =? T_DATA) with false. change (T_RST_STREAM =? T_HEADERS) with false.
+  change (T_RST_STREAM =? T_PRIORITY) with false. change (T_RST_STREAM =? T_RST_STREAM) with true. cbv iota.
+  apply N.eqb_neq in Hs. rewrite Hs.
+  unfold reset_load. cbn [h_sid mk_head].
+  destruct payload as [|a [|b [|c [|d [|e rest]]]]]; try reflexivity.
+  - change (lenN [a; b; c; d] =? 4) with true. cbn [negb lift agree wire_matches].
+    rewrite dec_u32_u32_of, !N.eqb_refl. reflexivity.
+  - assert (E : (lenN (a :: b :: c :: d :: e :: rest) =? 4) = false).
+    { apply N.eqb_neq. rewrite !lenN_cons. lia. }
+    rewrite E. reflexivity.
+Qed.
+
+Lemma agree_ping k fl sid payload :
+  agree (lift KPing sid (ping_load (mk_head k fl sid) payload)) (parse_payload T_PING fl sid payload) = true.
+Proof.
+  unfold parse_payload.
+  change (T_PING =? T_DATA) with false. change (T_PING =? T_HEADERS) with false.
+  change (T_PING =? T_PRIORITY) with false. change (T_PING =? T_RST_STREAM) with false.
+  change (T_PING =? T_SETTINGS) with false. change (T_PING =? T_PUSH_PROMISE) with false.
+  change (T_PING =? T_PING) with true. cbv iota.
+  unfold ping_load. cbn [h_sid h_flag mk_head]. change olen with lenN.
+  destruct (sid =? 0) eqn:Es; cbn [negb]; [|reflexivity].
+  destruct (lenN payload =? 8) eqn:E8; cbn [negb]; [|reflexivity].
+  cbn [lift agree wire_matches]. rewrite list_N_eqb_refl.
+  unfold keep_bit, ping_ACK, F_ACK. change flag with has_bit.
+  destruct (has_bit fl 1); reflexivity.
+Qed.
+
+Lemma agree_goaway fl payload :
+  bytes_ok payload = true ->
+  agree (lift KGoAway 0 (go_away_load payload)) (parse_payload T_GOAWAY fl 0 payload) = true.
+Proof.
+  intros Hb. unfold parse_payload.
+  change (T_GOAWAY =? T_DATA) with false. change (T_GOAWAY =? T_HEADERS) with false.
+  change (T_GOAWAY =? T_PRIORITY) with false. change (T_GOAWAY =? T_RST_STREAM) with false.
+  change (T_GOAWAY =? T_SETTINGS) with false. change (T_GOAWAY =? T_PUSH_PROMISE) with false.
+  change (T_GOAWAY =? T_PING) with false. change (T_GOAWAY =? T_GOAWAY) with true. cbv iota.
+  change (negb (0 =? 0)) with false. cbv iota.
+  unfold go_away_load.
+  destruct payload as [|a [|b [|c [|d [|e [|f [|g [|i debug]]]]]]]]; try reflexivity.
+  assert (E : (lenN (a :: b :: c :: d :: e :: f :: g :: i :: debug) <? 8) = false).
+  { apply N.ltb_ge. rewrite !lenN_cons. lia. }
+  rewrite E.
+  apply bytes_ok_cons in Hb as (Ha & Hb). apply bytes_ok_cons in Hb as (Hb' & Hb).
+  apply bytes_ok_cons in Hb as (Hc & Hb). apply bytes_ok_cons in Hb as (Hd & Hb).
+  rewrite (parse_sid_u31 a b c d Ha Hb' Hc Hd). cbn [fst lift agree wire_matches].
+  rewrite dec_u32_u32_of, !N.eqb_refl, list_N_eqb_refl. reflexivity.
+Qed.
+
+Lemma agree_window_update k fl sid payload :
+  bytes_ok payload = true ->
+  agree (lift KWindowUpdate sid (window_update_load (mk_head k fl sid) payload))
+        (parse_payload T_WINDOW_UPDATE fl sid payload) = true.
+Proof.
+  intros Hb. unfold parse_payload.
+  change (T_WINDOW_UPDATE =? T_DATA) with false. change (T_WINDOW_UPDATE =? T_HEADERS) with false.
+  change (T_WINDOW_UPDATE =? T_PRIORITY) with false. change (T_WINDOW_UPDATE =? T_RST_STREAM) with false.
+  change (T_WINDOW_UPDATE =? T_SETTINGS) with false. change (T_WINDOW_UPDATE =? T_PUSH_PROMISE) with false.
+  change (T_WINDOW_UPDATE =? T_PING) with false. change (T_WINDOW_UPDATE =? T_GOAWAY) with false.
+  change (T_WINDOW_UPDATE =? T_WINDOW_UPDATE) with true. cbv iota.
+  unfold window_update_load. cbn [h_sid mk_head].
+  destruct payload as [|a [|b [|c [|d [|e rest]]]]]; try reflexivity.
+  - change (lenN [a; b; c; d] =? 4) with true. cbn [negb].
+    apply bytes_ok_cons in Hb as (Ha & Hb). apply bytes_ok_cons in Hb as (Hb' & Hb).
+    apply bytes_ok_cons in Hb as (Hc & Hb). apply bytes_ok_cons in Hb as (Hd & Hb).
+    unfold SIZE_INCREMENT_MASK. rewrite (dec_u32_mod_u31 a b c d Ha Hb' Hc Hd).
+    destruct (u31_of a b c d =? 0); [reflexivity|].
+    cbn [lift agree wire_matches]. rewrite !N.eqb_refl. reflexivity.
+  - assert (E : (lenN (a :: b :: c :: d :: e :: rest) =? 4) = false).
+    { apply N.eqb_neq. rewrite !lenN_cons. lia. }
+    rewrite E. reflexivity.
+Qed.
+
+Lemma agree_continuation fl sid payload :
+  sid <> 0 ->
+  agree (POk (LdContinuation sid (has_bit fl continuation_END_HEADERS) payload))
+        (parse_payload T_CONTINUATION fl sid payload) = true.
+Proof.
+  intros Hs. unfold parse_payload.
+  change (T_CONTINUATION =? T_DATA) with false. change (T_CONTINUATION =? T_HEADERS) with false.
+  change (T_CONTINUATION =? T_PRIORITY) with false. change (T_CONTINUATION =? T_RST_STREAM) with false.
+  change (T_CONTINUATION =? T_SETTINGS) with false. change (T_CONTINUATION =? T_PUSH_PROMISE) with false.
+  change (T_CONTINUATION =? T_PING) with false. change (T_CONTINUATION =? T_GOAWAY) with false.
+  change (T_CONTINUATION =? T_WINDOW_UPDATE) with false. change (T_CONTINUATION =? T_CONTINUATION) with true.
+  cbv iota. apply N.eqb_neq in Hs. rewrite Hs.
+  cbn [agree wire_matches]. rewrite N.eqb_refl, list_N_eqb_refl.
+  change flag with has_bit. unfold continuation_END_HEADERS, F_END_HEADERS. rewrite Bool.eqb_reflx. reflexivity.
+Qed.
+
+Lemma agree_push_promise k fl sid payload :
+  bytes_ok payload = true ->
+  (negb (sid =? 0)
+   && (olen payload =? (if flag fl F_PADDED then 5 else 4))
+   && (if flag fl F_PADDED then match payload with p :: _ => p =? 0 | [] => false end else true)) = false ->
+  agree (lift KPushPromise sid (push_promise_load (mk_head k fl sid) payload))
+        (parse_payload T_PUSH_PROMISE fl sid payload) = true.
+Proof.
+  intros Hb Hdev. unfold parse_payload.
+  change (T_PUSH_PROMISE =? T_DATA) with false. change (T_PUSH_PROMISE =? T_HEADERS) with false.
+  change (T_PUSH_PROMISE =? T_PRIORITY) with false. change (T_PUSH_PROMISE =? T_RST_STREAM) with false.
+  change (T_PUSH_PROMISE =? T_SETTINGS) with false. change (T_PUSH_PROMISE =? T_PUSH_PROMISE) with true. cbv iota.
+  unfold push_promise_load. cbn [h_sid h_flag mk_head].
+  destruct (sid =? 0) eqn:Es; [reflexivity|]. cbn [negb andb] in Hdev.
+  unfold headers_PADDED, F_PADDED in *. change flag with has_bit in *. change olen with lenN in *.
+  unfold pad_length.
+  assert (Hcore : forall (pad : option N) (src1 : list N), bytes_ok src1 = true ->
+     (lenN src1 =? 4) && (match pad with Some p => p =? 0 | None => true end) = false ->
+     agree (lift KPushPromise sid
+        (if lenN src1 <? 5 then Err MalformedMessage else
+         match src1 with
+         | a :: b :: c :: d :: src2 =>
+             src3 <- (match pad with
+                      | Some p => if 0 <? p then if lenN src2 <? p then Err TooMuchPadding
+                                                 else Ok (takeN (lenN src2 - p) src2) else Ok src2
+                      | None => Ok src2 end) ;;
+             Ok (FPushPromise sid fl (fst (parse_sid a b c d)) src3)
+         | _ => Panic
+         end))
+       (match src1 with
+        | a :: b :: c :: d :: rest =>
+            match strip_trailing pad rest with
+            | None => Reject PROTOCOL_ERROR
+            | Some frag => Accept (WPushPromise sid (has_bit fl F_END_HEADERS) (u31_of a b c d) frag)
+            end
+        | _ => Reject FRAME_SIZE_ERROR
+        end) = true).
+  { intros pad src1 Hb1 Hd.
+    destruct src1 as [|a [|b [|c [|d src2]]]]; try reflexivity.
+    apply bytes_ok_cons in Hb1 as (Ha & Hb1). apply bytes_ok_cons in Hb1 as (Hb' & Hb1).
+    apply bytes_ok_cons in Hb1 as (Hc & Hb1). apply bytes_ok_cons in Hb1 as (Hd' & Hb1).
+    rewrite (parse_sid_u31 a b c d Ha Hb' Hc Hd'). cbn [fst].
+    rewrite !lenN_cons in *.
+    destruct (1 + (1 + (1 + (1 + lenN src2))) <? 5) eqn:E5; [apply N.ltb_lt in E5 | apply N.ltb_ge in E5].
+    - (* exactly four octets after the pad length: the deviation, excluded unless the padding is too long *)
+      assert (E0 : lenN src2 = 0) by lia.
+      assert (E4 : (1 + (1 + (1 + (1 + lenN src2))) =? 4) = true) by (apply N.eqb_eq; lia).
+      rewrite E4 in Hd. cbn [andb] in Hd.
+      destruct pad as [p|]; [|discriminate].
+      unfold strip_trailing. change olen with lenN. rewrite E0.
+      destruct (p <=? 0) eqn:Ep; [apply N.leb_le in Ep | reflexivity].
+      apply N.eqb_neq in Hd. lia.
+    - destruct pad as [p|].
+      + rewrite strip_agree. destruct (strip_trailing (Some p) src2); [|reflexivity].
+        cbn [bind lift agree wire_matches]. unfold headers_END_HEADERS, F_END_HEADERS.
+        rewrite !N.eqb_refl, Bool.eqb_reflx, list_N_eqb_refl. reflexivity.
+      + cbn [strip_trailing bind lift agree wire_matches]. unfold headers_END_HEADERS, F_END_HEADERS.
+        rewrite !N.eqb_refl, Bool.eqb_reflx, list_N_eqb_refl. reflexivity. }
+  destruct (has_bit fl 8) eqn:Epad.
+  - destruct payload as [|p rest]; [reflexivity|].
+    apply bytes_ok_cons in Hb as (_ & Hb). cbn [bind].
+    apply (Hcore (Some p) rest Hb).
+    rewrite lenN_cons in Hdev.
+    destruct (lenN rest =? 4) eqn:E4; [apply N.eqb_eq in E4 | reflexivity].
+    assert (E5 : (1 + lenN rest =? 5) = true) by (apply N.eqb_eq; lia).
+    rewrite E5 in Hdev. exact Hdev.
+  - cbn [bind]. specialize (Hcore None payload Hb).
+    rewrite andb_true_r in Hdev. rewrite andb_true_r in Hcore. exact (Hcore Hdev).
+Qed.
+
+Lemma agree_unknown ty fl sid payload :
+  kind_new ty = KUnknown ->
+  agree (POk LdIgnored) (parse_payload ty fl sid payload) = true.
+Proof.
+  unfold kind_new, parse_payload.
+  unfold kind_data, kind_headers, kind_priority, kind_reset, kind_settings, kind_push_promise, kind_ping,
+    kind_go_away, kind_window_update, kind_continuation,
+    T_DATA, T_HEADERS, T_PRIORITY, T_RST_STREAM, T_SETTINGS, T_PUSH_PROMISE, T_PING, T_GOAWAY, T_WINDOW_UPDATE,
+    T_CONTINUATION.
+  destruct (ty =? 0); [discriminate|]. destruct (ty =? 1); [discriminate|].
+  destruct (ty =? 2); [discriminate|]. destruct (ty =? 3); [discriminate|].
+  destruct (ty =? 4); [discriminate|]. destruct (ty =? 5); [discriminate|].
+  destruct (ty =? 6); [discriminate|]. destruct (ty =? 7); [discriminate|].
+  destruct (ty =? 8); [discriminate|]. destruct (ty =? 9); [discriminate|].
+  reflexivity.
+Qed.
+
+Ltac simp_eqb :=
+  repeat match goal with
+  | |- context [N.eqb ?x ?y] =>
+      lazymatch x with N0 => idtac | Npos _ => idtac end;
+      lazymatch y with N0 => idtac | Npos _ => idtac end;
+      let v := eval vm_compute in (N.eqb x y) in change (N.eqb x y) with v
+  end.
+
+Definition fields_follow (ps : list (N * N)) (s s' : settings) : Prop :=
+  s_flags s' = s_flags s /\
+  s_header_table_size s' = setting_value ps 1 (s_header_table_size s) /\
+  s_enable_push s' = setting_value ps 2 (s_enable_push s) /\
+  s_max_concurrent_streams s' = setting_value ps 3 (s_max_concurrent_streams s) /\
+  s_initial_window_size s' = setting_value ps 4 (s_initial_window_size s) /\
+  s_max_frame_size s' = setting_value ps 5 (s_max_frame_size s) /\
+  s_max_header_list_size s' = setting_value ps 6 (s_max_header_list_size s) /\
+  s_enable_connect_protocol s' = setting_value ps 8 (s_enable_connect_protocol s).
+
+Lemma settings_loop_agree n : forall p s,
+  (length p <= n)%nat -> lenN p mod 6 = 0 ->
+  match parse_params p with
+  | None => False
+  | Some ps =>
+      match settings_loop p s with
+      | Panic => False
+      | Err _ => first_param_error ps <> None
+      | Ok s' => first_param_error ps = None /\ fields_follow ps s s'
+      end
+  end.
+Proof.
+  induction n as [|n IH]; intros p s Hn Hm.
+  - destruct p; [|cbn in Hn; lia]. cbn [parse_params settings_loop first_param_error].
+    split; [reflexivity|]. unfold fields_follow. cbn [setting_value]. tauto.
+  - destruct p as [|a [|b [|c [|d [|e [|f rest]]]]]];
+      try (exfalso; cbn [lenN length] in Hm; vm_compute in Hm; discriminate).
+    + cbn [parse_params settings_loop first_param_error].
+      split; [reflexivity|]. unfold fields_follow. cbn [setting_value]. tauto.
+    + assert (Hn' : (length rest <= n)%nat) by (cbn [length] in Hn; lia).
+      assert (Hm' : lenN rest mod 6 = 0) by (rewrite !lenN_cons in Hm; lia).
+      cbn [parse_params settings_loop].
+      unfold dec_u16. rewrite dec_u32_u32_of.
+      remember (a * 256 + b) as id eqn:Hid. remember (u32_of c d e f) as val eqn:Hval.
+      clear Hid Hval Hn Hm.
+      unfold setting_id_header_table_size, setting_id_enable_push, setting_id_max_concurrent_streams,
+        setting_id_initial_window_size, setting_id_max_frame_size, setting_id_max_header_list_size,
+        setting_id_enable_connect_protocol.
+      pose proof (fun s0 => IH rest s0 Hn' Hm') as IH'. clear IH.
+      destruct (parse_params rest) as [ps|] eqn:Eps; [|exact (IH' s)].
+      cbn [first_param_error param_error].
+      unfold S_ENABLE_PUSH, S_INITIAL_WINDOW_SIZE, S_MAX_FRAME_SIZE, S_ENABLE_CONNECT_PROTOCOL,
+        MAX_FLOW_WINDOW, FRAME_SIZE_LOWER_BOUND, FRAME_SIZE_UPPER_BOUND, MAX_INITIAL_WINDOW_SIZE,
+        DEFAULT_MAX_FRAME_SIZE, FrameConsts.MAX_MAX_FRAME_SIZE.
+      (* one case per identifier *)
+      destruct (id =? 1) eqn:E1.
+      { apply N.eqb_eq in E1. subst id. simp_eqb. cbv iota.
+        match goal with |- context [settings_loop rest ?s0] => specialize (IH' s0) end.
+        destruct (settings_loop rest _) as [s'| |]; [|exact IH'|exact IH'].
+        destruct IH' as (He & Hf). split; [exact He|].
+        unfold fields_follow in *. cbn [setting_value s_flags s_header_table_size s_enable_push
+          s_max_concurrent_streams s_initial_window_size s_max_frame_size s_max_header_list_size
+          s_enable_connect_protocol] in *. simp_eqb. cbv iota. exact Hf. }
+      destruct (id =? 2) eqn:E2.
+      { apply N.eqb_eq in E2. subst id. simp_eqb. cbv iota.
+        destruct (val <=? 1) eqn:Ev; [|discriminate].
+        match goal with |- context [settings_loop rest ?s0] => specialize (IH' s0) end.
+        destruct (settings_loop rest _) as [s'| |]; [|exact IH'|exact IH'].
+        destruct IH' as (He & Hf). split; [exact He|].
+        unfold fields_follow in *. cbn [setting_value s_flags s_header_table_size s_enable_push
+          s_max_concurrent_streams s_initial_window_size s_max_frame_size s_max_header_list_size
+          s_enable_connect_protocol] in *. simp_eqb. cbv iota. exact Hf. }
+      destruct (id =? 3) eqn:E3.
+      { apply N.eqb_eq in E3. subst id. simp_eqb. cbv iota.
+        match goal with |- context [settings_loop rest ?s0] => specialize (IH' s0) end.
+        destruct (settings_loop rest _) as [s'| |]; [|exact IH'|exact IH'].
+        destruct IH' as (He & Hf). split; [exact He|].
+        unfold fields_follow in *. cbn [setting_value s_flags s_header_table_size s_enable_push
+          s_max_concurrent_streams s_initial_window_size s_max_frame_size s_max_header_list_size
+          s_enable_connect_protocol] in *. simp_eqb. cbv iota. exact Hf. }
+      destruct (id =? 4) eqn:E4.
+      { apply N.eqb_eq in E4. subst id. simp_eqb. cbv iota.
+        destruct (2147483647 <? val) eqn:Ev; [apply N.ltb_lt in Ev | apply N.ltb_ge in Ev].
+        - destruct (val <=? 2147483647) eqn:Ev2; [apply N.leb_le in Ev2; lia | discriminate].
+        - destruct (val <=? 2147483647) eqn:Ev2; [| apply N.leb_gt in Ev2; lia].
+          match goal with |- context [settings_loop rest ?s0] => specialize (IH' s0) end.
+          destruct (settings_loop rest _) as [s'| |]; [|exact IH'|exact IH'].
+          destruct IH' as (He & Hf). split; [exact He|].
+          unfold fields_follow in *. cbn [setting_value s_flags s_header_table_size s_enable_push
+            s_max_concurrent_streams s_initial_window_size s_max_frame_size s_max_header_list_size
+            s_enable_connect_protocol] in *. simp_eqb. cbv iota. exact Hf. }
+      destruct (id =? 5) eqn:E5.
+      { apply N.eqb_eq in E5. subst id. simp_eqb. cbv iota.
+        destruct ((16384 <=? val) && (val <=? 16777215)) eqn:Ev; [|discriminate].
+        match goal with |- context [settings_loop rest ?s0] => specialize (IH' s0) end.
+        destruct (settings_loop rest _) as [s'| |]; [|exact IH'|exact IH'].
+        destruct IH' as (He & Hf). split; [exact He|].
+        unfold fields_follow in *. cbn [setting_value s_flags s_header_table_size s_enable_push
+          s_max_concurrent_streams s_initial_window_size s_max_frame_size s_max_header_list_size
+          s_enable_connect_protocol] in *. simp_eqb. cbv iota. exact Hf. }
+      destruct (id =? 6) eqn:E6.
+      { apply N.eqb_eq in E6. subst id. simp_eqb. cbv iota.
+        match goal with |- context [settings_loop rest ?s0] => specialize (IH' s0) end.
+        destruct (settings_loop rest _) as [s'| |]; [|exact IH'|exact IH'].
+        destruct IH' as (He & Hf). split; [exact He|].
+        unfold fields_follow in *. cbn [setting_value s_flags s_header_table_size s_enable_push
+          s_max_concurrent_streams s_initial_window_size s_max_frame_size s_max_header_list_size
+          s_enable_connect_protocol] in *. simp_eqb. cbv iota. exact Hf. }
+      destruct (id =? 8) eqn:E8.
+      { apply N.eqb_eq in E8. subst id. simp_eqb. cbv iota.
+        destruct (val <=? 1) eqn:Ev; [|discriminate].
+        match goal with |- context [settings_loop rest ?s0] => specialize (IH' s0) end.
+        destruct (settings_loop rest _) as [s'| |]; [|exact IH'|exact IH'].
+        destruct IH' as (He & Hf). split; [exact He|].
+        unfold fields_follow in *. cbn [setting_value s_flags s_header_table_size s_enable_push
+          s_max_concurrent_streams s_initial_window_size s_max_frame_size s_max_header_list_size
+          s_enable_connect_protocol] in *. simp_eqb. cbv iota. exact Hf. }
+      (* unknown identifier: ignored on both sides *)
+      specialize (IH' s).
+      destruct (settings_loop rest s) as [s'| |]; [|exact IH'|exact IH'].
+      destruct IH' as (He & Hf). split; [exact He|].
+      unfold fields_follow in *. cbn [setting_value]. rewrite E1, E2, E3, E4, E5, E6, E8. exact Hf.
+Qed.
+
+Lemma opt_N_eqb_refl o : opt_N_eqb o o = true.
+Proof. destruct o; cbn [opt_N_eqb]; [apply N.eqb_refl | reflexivity]. Qed.
+
+Lemma agree_settings k fl sid payload :
+  bytes_ok payload = true ->
+  agree (lift KSettings sid (settings_load (mk_head k fl sid) payload)) (parse_payload T_SETTINGS fl sid payload) = true.
+Proof.
+  intros Hb. unfold parse_payload.
+  change (T_SETTINGS =? T_DATA) with false. change (T_SETTINGS =? T_HEADERS) with false.
+  change (T_SETTINGS =? T_PRIORITY) with false. change (T_SETTINGS =? T_RST_STREAM) with false.
+  change (T_SETTINGS =? T_SETTINGS) with true. cbv iota.
+  unfold settings_load. cbn [h_sid h_flag mk_head]. change olen with lenN.
+  destruct (sid =? 0) eqn:Es; cbn [negb]; [|reflexivity].
+  unfold settings_ACK, F_ACK. change flag with has_bit.
+  assert (Hk : has_bit (keep_bit fl 1) 1 = has_bit fl 1).
+  { unfold keep_bit. destruct (has_bit fl 1); reflexivity. }
+  rewrite Hk. destruct (has_bit fl 1) eqn:Eack.
+  - destruct (lenN payload =? 0) eqn:E0; cbn [negb]; reflexivity.
+  - destruct (lenN payload mod 6 =? 0) eqn:E6; cbn [negb].
+    + apply N.eqb_eq in E6.
+      pose proof (settings_loop_agree (length payload) payload settings_default (Nat.le_refl _) E6) as H.
+      destruct (parse_params payload) as [ps|]; [|contradiction].
+      destruct (settings_loop payload settings_default) as [s'|e|]; [| |contradiction].
+      * destruct H as (He & Hf). rewrite He. cbn [bind lift agree wire_matches].
+        unfold fields_follow in Hf. cbn [settings_default s_flags s_header_table_size s_enable_push
+          s_max_concurrent_streams s_initial_window_size s_max_frame_size s_max_header_list_size
+          s_enable_connect_protocol] in Hf.
+        destruct Hf as (H0 & H1 & H2 & H3 & H4 & H5 & H6 & H8).
+        unfold settings_match. rewrite H0, H1, H2, H3, H4, H5, H6, H8.
+        unfold S_HEADER_TABLE_SIZE, S_ENABLE_PUSH, S_MAX_CONCURRENT_STREAMS, S_INITIAL_WINDOW_SIZE,
+          S_MAX_FRAME_SIZE, S_MAX_HEADER_LIST_SIZE, S_ENABLE_CONNECT_PROTOCOL.
+        rewrite !opt_N_eqb_refl. reflexivity.
+      * cbn [bind lift]. destruct (first_param_error ps); [reflexivity | congruence].
+    + apply N.eqb_neq in E6.
+      assert (Hnone : parse_params payload = None).
+      { clear Hb. revert E6. generalize (Nat.le_refl (length payload)).
+        generalize (length payload) at 2. intros n. revert payload.
+        induction n as [|n IH]; intros p Hn Hm.
+        - destruct p; [exfalso; apply Hm; reflexivity | cbn in Hn; lia].
+        - destruct p as [|a [|b [|c [|d [|e [|f rest]]]]]]; try reflexivity.
+          + exfalso; apply Hm; reflexivity.
+          + cbn [parse_params]. rewrite IH; [reflexivity | cbn [length] in Hn; lia |].
+            rewrite !lenN_cons in Hm. lia. }
+      rewrite Hnone. reflexivity.
+Qed.
+
+(* ---------------------------------------------------------------------------------------- *)
+(* no panics *)
+
+Lemma strip_padding_no_panic p : strip_padding p <> Panic.
+Proof.
+  unfold strip_padding. destruct p as [|x r]; [rewrite lenN_nil; discriminate|].
+  rewrite lenN_cons. destruct (1 + lenN r =? 0); [discriminate|].
+  destruct (1 + lenN r <=? x); discriminate.
+Qed.
+
+Lemma data_no_panic h p : data_load h p <> Panic.
+Proof.
+  unfold data_load. destruct (h_sid h =? 0); [discriminate|].
+  destruct (has_bit _ data_PADDED); [|discriminate].
+  pose proof (strip_padding_no_panic p) as H. destruct (strip_padding p) as [[x y]| |]; cbn [bind]; congruence.
+Qed.
+
+Lemma dependency_no_panic src : dependency_load src <> Panic.
+Proof.
+  unfold dependency_load. destruct (lenN src =? 5) eqn:E; cbn [negb]; [|discriminate].
+  apply N.eqb_eq in E.
+  destruct src as [|a [|b [|c [|d [|w r]]]]]; try (cbn in E; lia).
+  destruct (parse_sid a b c d). discriminate.
+Qed.
+
+Lemma priority_no_panic h p : priority_load h p <> Panic.
+Proof.
+  unfold priority_load. pose proof (dependency_no_panic p) as H.
+  destruct (dependency_load p) as [d| |]; cbn [bind]; [|discriminate|congruence].
+  destruct (dep_id d =? h_sid h); discriminate.
+Qed.
+
+Lemma pad_step_no_panic pad (src2 : list N) :
+  (if 0 <? pad then if lenN src2 <? pad then @Err (list N) TooMuchPadding else Ok (takeN (lenN src2 - pad) src2)
+   else Ok src2) <> Panic.
+Proof. destruct (0 <? pad); [destruct (lenN src2 <? pad)|]; discriminate. Qed.
+
+Lemma headers_no_panic h p : headers_load h p <> Panic.
+Proof.
+  unfold headers_load. destruct (h_sid h =? 0); [discriminate|].
+  assert (Hcore : forall pad src1,
+    ('(dep, src2) <-
+       (if has_bit (h_flag h) headers_PRIORITY then
+          if lenN src1 <? 5 then Err MalformedMessage else
+          d <- dependency_load (takeN 5 src1) ;;
+          if dep_id d =? h_sid h then Err InvalidDependencyId else Ok (Some d, dropN 5 src1)
+        else Ok (None, src1)) ;;
+     src3 <- (if 0 <? pad then if lenN src2 <? pad then Err TooMuchPadding
+              else Ok (takeN (lenN src2 - pad) src2) else Ok src2) ;;
+     Ok (FHeaders (h_sid h) (h_flag h) dep src3)) <> Panic).
+  { intros pad src1.
+    assert (Hfin : forall dep src2,
+       (src3 <- (if 0 <? pad then if lenN src2 <? pad then Err TooMuchPadding
+              else Ok (takeN (lenN src2 - pad) src2) else Ok src2) ;;
+        Ok (FHeaders (h_sid h) (h_flag h) dep src3)) <> Panic).
+    { intros dep src2. pose proof (pad_step_no_panic pad src2) as H.
+      destruct (if 0 <? pad then _ else _); cbn [bind]; congruence. }
+    destruct (has_bit (h_flag h) headers_PRIORITY).
+    - destruct (lenN src1 <? 5); [discriminate|].
+      pose proof (dependency_no_panic (takeN 5 src1)) as H.
+      destruct (dependency_load (takeN 5 src1)) as [d| |]; cbn [bind]; [|discriminate|congruence].
+      destruct (dep_id d =? h_sid h); [discriminate|]. cbn [bind]. apply Hfin.
+    - cbn [bind]. apply Hfin. }
+  destruct (has_bit (h_flag h) headers_PADDED).
+  - destruct p as [|x r]; [discriminate|]. cbn [bind]. apply Hcore.
+  - cbn [bind]. apply Hcore.
+Qed.
+
+Lemma push_promise_no_panic h p : push_promise_load h p <> Panic.
+Proof.
+  unfold push_promise_load. destruct (h_sid h =? 0); [discriminate|].
+  assert (Hcore : forall pad src1,
+    (if lenN src1 <? 5 then Err MalformedMessage else
+     match src1 with
+     | a :: b :: c :: d :: src2 =>
+         src3 <- (if 0 <? pad then if lenN src2 <? pad then Err TooMuchPadding
+                  else Ok (takeN (lenN src2 - pad) src2) else Ok src2) ;;
+         Ok (FPushPromise (h_sid h) (h_flag h) (fst (parse_sid a b c d)) src3)
+     | _ => Panic
+     end) <> Panic).
+  { intros pad src1. destruct (lenN src1 <? 5) eqn:E; [discriminate|]. apply N.ltb_ge in E.
+    destruct src1 as [|a [|b [|c [|d src2]]]]; try (cbn in E; lia).
+    pose proof (pad_step_no_panic pad src2) as H.
+    destruct (if 0 <? pad then _ else _); cbn [bind]; congruence. }
+  destruct (has_bit (h_flag h) headers_PADDED).
+  - destruct p as [|x r]; [discriminate|]. cbn [bind]. apply Hcore.
+  - cbn [bind]. apply Hcore.
+Qed.
+
+Lemma settings_no_panic h p : settings_load h p <> Panic.
+Proof.
+  unfold settings_load. destruct (negb (h_sid h =? 0)); [discriminate|].
+  destruct (has_bit _ settings_ACK).
+  - destruct (negb (lenN p =? 0)); discriminate.
+  - destruct (lenN p mod 6 =? 0) eqn:E6; cbn [negb]; [|discriminate]. apply N.eqb_eq in E6.
+    pose proof (settings_loop_agree (length p) p settings_default (Nat.le_refl _) E6) as H.
+    destruct (parse_params p); [|contradiction].
+    destruct (settings_loop p settings_default); cbn [bind]; [discriminate|discriminate|contradiction].
+Qed.
+
+Lemma ping_no_panic h p : ping_load h p <> Panic.
+Proof.
+  unfold ping_load. destruct (negb (h_sid h =? 0)); [discriminate|].
+  destruct (negb (lenN p =? 8)); discriminate.
+Qed.
+
+Lemma go_away_no_panic p : go_away_load p <> Panic.
+Proof.
+  unfold go_away_load. destruct (lenN p <? 8) eqn:E; [discriminate|]. apply N.ltb_ge in E.
+  destruct p as [|a [|b [|c [|d [|e [|f [|g [|i r]]]]]]]]; try (cbn in E; lia). discriminate.
+Qed.
+
+Lemma window_update_no_panic h p : window_update_load h p <> Panic.
+Proof.
+  unfold window_update_load. destruct (lenN p =? 4) eqn:E; cbn [negb]; [|discriminate]. apply N.eqb_eq in E.
+  destruct p as [|a [|b [|c [|d r]]]]; try (cbn in E; lia).
+  destruct (_ =? 0); discriminate.
+Qed.
+
+Lemma reset_no_panic h p : reset_load h p <> Panic.
+Proof.
+  unfold reset_load. destruct (lenN p =? 4) eqn:E; cbn [negb]; [|discriminate]. apply N.eqb_eq in E.
+  destruct p as [|a [|b [|c [|d r]]]]; try (cbn in E; lia). discriminate.
+Qed.
+
+Lemma lift_no_panic k sid r : r <> Panic -> lift k sid r <> PPanic.
+Proof. destruct r; cbn [lift]; congruence. Qed.
+
+(* Head::parse and every `load` are total on what the length-delimited layer delivers (>= 9 octets) *)
+Theorem load_frame_never_panics bs : 9 <= lenN bs -> load_frame bs <> PPanic.
+Proof.
+  intros H9.
+  destruct bs as [|l0 [|l1 [|l2 [|k [|fl [|s0 [|s1 [|s2 [|s3 payload]]]]]]]]]; try (cbn in H9; lia).
+  unfold load_frame. cbn [parse_head].
+  destruct (kind_new _); cbn [h_sid]; try (apply lift_no_panic).
+  - apply data_no_panic. - apply headers_no_panic.
+  - destruct (_ =? 0); [discriminate|]. apply lift_no_panic, priority_no_panic.
+  - apply reset_no_panic. - apply settings_no_panic. - apply push_promise_no_panic.
+  - apply ping_no_panic. - apply go_away_no_panic. - apply window_update_no_panic.
+  - discriminate. - discriminate.
+Qed.
+
+Theorem model_parse_never_panics max bs : model_parse max bs <> PPanic.
+Proof.
+  unfold model_parse. destruct bs as [|l0 [|l1 [|l2 r]]]; try discriminate.
+  destruct (max <? _); [discriminate|].
+  destruct (lenN (l0 :: l1 :: l2 :: r) =? _) eqn:E; [|discriminate].
+  apply N.eqb_eq in E. apply load_frame_never_panics. unfold ld_length_adjustment in E. lia.
+Qed.
+
+(* ---------------------------------------------------------------------------------------- *)
+(* the two parsers agree *)
+
+Lemma kind_new_cases ty :
+  (ty = 0 /\ kind_new ty = KData) \/ (ty = 1 /\ kind_new ty = KHeaders) \/ (ty = 2 /\ kind_new ty = KPriority) \/
+  (ty = 3 /\ kind_new ty = KReset) \/ (ty = 4 /\ kind_new ty = KSettings) \/ (ty = 5 /\ kind_new ty = KPushPromise) \/
+  (ty = 6 /\ kind_new ty = KPing) \/ (ty = 7 /\ kind_new ty = KGoAway) \/ (ty = 8 /\ kind_new ty = KWindowUpdate) \/
+  (ty = 9 /\ kind_new ty = KContinuation) \/
+  (kind_new ty = KUnknown /\ ty <> 5 /\ ty <> 7 /\ ty <> 3 /\ ty <> 9).
+Proof.
+  unfold kind_new, kind_data, kind_headers, kind_priority, kind_reset, kind_settings, kind_push_promise, kind_ping,
+    kind_go_away, kind_window_update, kind_continuation.
+  destruct (ty =? 0) eqn:E0; [apply N.eqb_eq in E0; tauto|].
+  destruct (ty =? 1) eqn:E1; [apply N.eqb_eq in E1; tauto|].
+  destruct (ty =? 2) eqn:E2; [apply N.eqb_eq in E2; tauto|].
+  destruct (ty =? 3) eqn:E3; [apply N.eqb_eq in E3; tauto|].
+  destruct (ty =? 4) eqn:E4; [apply N.eqb_eq in E4; tauto|].
+  destruct (ty =? 5) eqn:E5; [apply N.eqb_eq in E5; tauto|].
+  destruct (ty =? 6) eqn:E6; [apply N.eqb_eq in E6; tauto|].
+  destruct (ty =? 7) eqn:E7; [apply N.eqb_eq in E7; tauto|].
+  destruct (ty =? 8) eqn:E8; [apply N.eqb_eq in E8; tauto|].
+  destruct (ty =? 9) eqn:E9; [apply N.eqb_eq in E9; tauto|].
+  apply N.eqb_neq in E3, E5, E7, E9. tauto.
+Qed.
+
+Theorem C12_parse_agrees_with_rfc max bs :
+  bytes_ok bs = true -> deviation_of bs = DevNone ->
+  agree (model_parse max bs) (rfc_parse_frame max bs) = true.
+Proof.
+  intros Hb Hdev.
+  destruct bs as [|l0 [|l1 [|l2 r]]]; try reflexivity.
+  unfold model_parse, rfc_parse_frame.
+  replace (l0 * 65536 + l1 * 256 + l2) with ((l0 * 256 + l1) * 256 + l2) by lia.
+  set (n := (l0 * 256 + l1) * 256 + l2) in *.
+  destruct (max <? n) eqn:Emax; [reflexivity|].
+  unfold ld_length_adjustment. change olen with lenN.
+  destruct r as [|ty [|fl [|s3 [|s2 [|s1 [|s0 payload]]]]]].
+  1-6: (match goal with |- context [lenN ?l =? ?m + 9] =>
+          assert (E : (lenN l =? m + 9) = false) by (apply N.eqb_neq; unfold lenN; cbn [length]; lia); rewrite E end;
+        reflexivity).
+  rewrite !lenN_cons.
+  destruct (n =? lenN payload) eqn:En; [apply N.eqb_eq in En | apply N.eqb_neq in En].
+  2:{ assert (E : (1 + (1 + (1 + (1 + (1 + (1 + (1 + (1 + (1 + lenN payload)))))))) =? n + 9) = false)
+        by (apply N.eqb_neq; lia). rewrite E. reflexivity. }
+  assert (E : (1 + (1 + (1 + (1 + (1 + (1 + (1 + (1 + (1 + lenN payload)))))))) =? n + 9) = true)
+    by (apply N.eqb_eq; lia). rewrite E. cbn [negb]. clear E Emax.
+  (* the payload *)
+  apply bytes_ok_cons in Hb as (_ & Hb). apply bytes_ok_cons in Hb as (_ & Hb). apply bytes_ok_cons in Hb as (_ & Hb).
+  apply bytes_ok_cons in Hb as (_ & Hb). apply bytes_ok_cons in Hb as (_ & Hb).
+  apply bytes_ok_cons in Hb as (H3 & Hb). apply bytes_ok_cons in Hb as (H2 & Hb).
+  apply bytes_ok_cons in Hb as (H1 & Hb). apply bytes_ok_cons in Hb as (H0 & Hb).
+  unfold load_frame. cbn [parse_head]. rewrite (parse_sid_u31 s3 s2 s1 s0 H3 H2 H1 H0). cbn [fst h_sid h_kind h_flag].
+  set (sid := u31_of s3 s2 s1 s0) in *.
+  cbn [deviation_of] in Hdev. fold sid in Hdev.
+  unfold T_PUSH_PROMISE, T_GOAWAY, T_RST_STREAM, T_CONTINUATION in Hdev.
+  change {| h_kind := ty; h_flag := fl; h_sid := sid |} with (mk_head ty fl sid).
+  destruct (kind_new_cases ty) as [(Et & Ek)|[(Et & Ek)|[(Et & Ek)|[(Et & Ek)|[(Et & Ek)|[(Et & Ek)|[(Et & Ek)|
+     [(Et & Ek)|[(Et & Ek)|[(Et & Ek)|(Ek & N5 & N7 & N3 & N9)]]]]]]]]]]; rewrite Ek; try subst ty.
+  - apply agree_data.
+  - apply agree_headers, Hb.
+  - destruct (sid =? 0) eqn:Es.
+    + apply N.eqb_eq in Es. rewrite Es. reflexivity.
+    + apply agree_priority; [exact Hb | apply N.eqb_neq, Es].
+  - (* RST_STREAM: stream 0 with a 4 octet payload is the documented deviation *)
+    change (3 =? 5) with false in Hdev. change (3 =? 7) with false in Hdev. change (3 =? 3) with true in Hdev.
+    cbv iota in Hdev. change olen with lenN in Hdev.
+    destruct (sid =? 0) eqn:Es.
+    + apply N.eqb_eq in Es. cbn [andb] in Hdev.
+      destruct (lenN payload =? 4) eqn:E4; [discriminate|].
+      rewrite Es. unfold reset_load. rewrite E4. reflexivity.
+    + apply agree_reset. apply N.eqb_neq, Es.
+  - apply agree_settings, Hb.
+  - change (5 =? 5) with true in Hdev. cbv iota in Hdev.
+    apply agree_push_promise; [exact Hb|].
+    destruct (negb (sid =? 0) && (olen payload =? (if flag fl F_PADDED then 5 else 4)) &&
+              (if flag fl F_PADDED then match payload with p :: _ => p =? 0 | [] => false end else true));
+      [discriminate | reflexivity].
+  - apply agree_ping.
+  - (* GOAWAY: a non-zero stream id with >= 8 octets is the documented deviation *)
+    change (7 =? 5) with false in Hdev. change (7 =? 7) with true in Hdev. cbv iota in Hdev.
+    change olen with lenN in Hdev.
+    destruct (sid =? 0) eqn:Es.
+    + apply N.eqb_eq in Es. rewrite Es. apply agree_goaway, Hb.
+    + cbn [negb andb] in Hdev. destruct (8 <=? lenN payload) eqn:E8; [discriminate|]. apply N.leb_gt in E8.
+      unfold go_away_load. destruct (lenN payload <? 8) eqn:E8'; [|apply N.ltb_ge in E8'; lia].
+      unfold parse_payload. change (T_GOAWAY =? T_DATA) with false. change (T_GOAWAY =? T_HEADERS) with false.
+      change (T_GOAWAY =? T_PRIORITY) with false. change (T_GOAWAY =? T_RST_STREAM) with false.
+      change (T_GOAWAY =? T_SETTINGS) with false. change (T_GOAWAY =? T_PUSH_PROMISE) with false.
+      change (T_GOAWAY =? T_PING) with false. change (T_GOAWAY =? T_GOAWAY) with true. cbv iota.
+      rewrite Es. reflexivity.
+  - apply agree_window_update, Hb.
+  - change (9 =? 5) with false in Hdev. change (9 =? 7) with false in Hdev. change (9 =? 3) with false in Hdev.
+    change (9 =? 9) with true in Hdev. cbv iota in Hdev.
+    destruct (sid =? 0) eqn:Es; [discriminate|].
+    apply agree_continuation. apply N.eqb_neq, Es.
+  - apply agree_unknown, Ek.
+Qed.
+
+(* ---------------------------------------------------------------------------------------- *)
+(* what the encoders emit is parsed back *)
+
+
+(* the match of load_frame, head already parsed *)
+Definition dispatch (h : head) (payload : list N) : parse_result :=
+  let k := kind_new (h_kind h) in
+  match k with
+  | KSettings => lift k (h_sid h) (settings_load h payload)
+  | KPing => lift k (h_sid h) (ping_load h payload)
+  | KWindowUpdate => lift k (h_sid h) (window_update_load h payload)
+  | KData => lift k (h_sid h) (data_load h payload)
+  | KHeaders => lift k (h_sid h) (headers_load h payload)
+  | KReset => lift k (h_sid h) (reset_load h payload)
+  | KGoAway => lift k (h_sid h) (go_away_load payload)
+  | KPushPromise => lift k (h_sid h) (push_promise_load h payload)
+  | KPriority =>
+      if h_sid h =? 0 then PErrPriorityZero
+      else lift k (h_sid h) (priority_load h payload)
+  | KContinuation =>
+      POk (LdContinuation (h_sid h) (has_bit (h_flag h) continuation_END_HEADERS) payload)
+  | KUnknown => POk LdIgnored
+  end.
+
+(* parsing what Head::encode wrote *)
+Lemma model_parse_encoded max k fl sid payload :
+  k < 256 -> fl < 256 -> sid < 2147483648 -> lenN payload <= max -> lenN payload < 16777216 ->
+  model_parse max (head_encode k fl sid (lenN payload) ++ payload) = dispatch (mk_head k fl sid) payload.
+Proof.
+  intros Hk Hf Hs Hm H24.
+  unfold head_encode, enc_u24, enc_u32. cbn [app].
+  unfold model_parse.
+  set (len := lenN payload) in *.
+  assert (E1 : ((len / 65536) mod 256 * 256 + (len / 256) mod 256) * 256 + len mod 256 = len) by lia.
+  rewrite E1.
+  destruct (max <? len) eqn:Emax; [apply N.ltb_lt in Emax; lia|].
+  rewrite !lenN_cons. fold len. unfold ld_length_adjustment.
+  assert (E2 : (1 + (1 + (1 + (1 + (1 + (1 + (1 + (1 + (1 + len)))))))) =? len + 9) = true) by (apply N.eqb_eq; lia).
+  rewrite E2. unfold load_frame. cbn [parse_head].
+  assert (E3 : fst (parse_sid ((sid / 16777216) mod 256) ((sid / 65536) mod 256) ((sid / 256) mod 256) (sid mod 256)) = sid).
+  { unfold parse_sid, dec_u32, STREAM_ID_MASK. cbn [fst]. lia. }
+  rewrite E3. rewrite (N.mod_small k 256 Hk), (N.mod_small fl 256 Hf). reflexivity.
+Qed.
+
+Lemma rfc_parse_encoded max k fl sid payload :
+  k < 256 -> fl < 256 -> sid < 2147483648 -> lenN payload <= max -> lenN payload < 16777216 ->
+  rfc_parse_frame max (head_encode k fl sid (lenN payload) ++ payload) = parse_payload k fl sid payload.
+Proof.
+  intros Hk Hf Hs Hm H24.
+  unfold head_encode, enc_u24, enc_u32. cbn [app].
+  unfold rfc_parse_frame. change olen with lenN.
+  set (len := lenN payload) in *.
+  assert (E1 : (len / 65536) mod 256 * 65536 + (len / 256) mod 256 * 256 + len mod 256 = len) by lia.
+  rewrite E1.
+  destruct (max <? len) eqn:Emax; [apply N.ltb_lt in Emax; lia|].
+  rewrite N.eqb_refl. cbn [negb].
+  assert (E3 : u31_of ((sid / 16777216) mod 256) ((sid / 65536) mod 256) ((sid / 256) mod 256) (sid mod 256) = sid).
+  { unfold u31_of. lia. }
+  rewrite E3. rewrite (N.mod_small k 256 Hk), (N.mod_small fl 256 Hf). reflexivity.
+Qed.
+
+Ltac split_andb :=
+  repeat match goal with
+  | H : (_ && _) = true |- _ => apply andb_true_iff in H; destruct H
+  end.
+Ltac boolprops :=
+  repeat match goal with
+  | H : (_ <? _) = true |- _ => apply N.ltb_lt in H
+  | H : (_ <=? _) = true |- _ => apply N.leb_le in H
+  | H : (_ =? _) = true |- _ => apply N.eqb_eq in H
+  | H : negb (_ =? _) = true |- _ => apply negb_true_iff, N.eqb_neq in H
+  | H : (_ || _) = true |- _ => apply orb_true_iff in H
+  end.
+
+Definition single_frame (max : N) (f : frame) : bool :=
+  match f with
+  | FHeaders _ _ _ block => lenN block <=? max
+  | FPushPromise _ _ _ block => 4 + lenN block <=? max
+  | _ => true
+  end.
+
+Definition pp_block_nonempty (f : frame) : bool :=
+  match f with FPushPromise _ _ _ block => negb (lenN block =? 0) | _ => true end.
+
+Lemma roundtrip_data max sid flags pad data :
+  max <= FrameConsts.MAX_MAX_FRAME_SIZE -> frame_wf max (FData sid flags pad data) = true ->
+  exists bs, encode max (FData sid flags pad data) = EOk bs /\
+    rfc_parse_frame max bs = Accept (wire_value_of (FData sid flags pad data)) /\
+    model_parse max bs = POk (LdFrame (FData sid flags pad data)).
+Proof.
+  intros Hmax Hwf. cbn [frame_wf] in Hwf. unfold sid_ok in Hwf. split_andb. boolprops.
+  destruct pad; [discriminate|]. unfold FrameConsts.MAX_MAX_FRAME_SIZE in Hmax.
+  eexists. split; [reflexivity|]. unfold data_encode, kind_data.
+  assert (Hfl : flags < 256) by (unfold data_END_STREAM in *; lia).
+  rewrite rfc_parse_encoded, model_parse_encoded by lia.
+  split.
+  - unfold parse_payload. change (0 =? T_DATA) with true. cbv iota.
+    match goal with H : sid <> 0 |- _ => apply N.eqb_neq in H; rewrite H end.
+    cbn [wire_value_of]. unfold data_END_STREAM in *.
+    match goal with H : _ \/ _ |- _ => destruct H as [H|H]; apply N.eqb_eq in H; subst flags end; reflexivity.
+  - unfold dispatch, data_load. cbn [mk_head h_kind h_sid h_flag]. change (kind_new 0) with KData. cbv iota.
+    match goal with H : sid <> 0 |- _ => apply N.eqb_neq in H; rewrite H end.
+    unfold data_END_STREAM in *.
+    match goal with H : _ \/ _ |- _ => destruct H as [H|H]; apply N.eqb_eq in H; subst flags end; reflexivity.
+Qed.
+
+Lemma roundtrip_headers max sid flags dep block :
+  max <= FrameConsts.MAX_MAX_FRAME_SIZE -> frame_wf max (FHeaders sid flags dep block) = true ->
+  lenN block <= max ->
+  exists bs, encode max (FHeaders sid flags dep block) = EOk bs /\
+    rfc_parse_frame max bs = Accept (wire_value_of (FHeaders sid flags dep block)) /\
+    model_parse max bs = POk (LdFrame (FHeaders sid flags dep block)).
+Proof.
+  intros Hmax Hwf Hlen. cbn [frame_wf] in Hwf. unfold sid_ok in Hwf. split_andb. boolprops.
+  destruct dep; [discriminate|]. unfold FrameConsts.MAX_MAX_FRAME_SIZE in Hmax.
+  assert (Hfl : flags = 4 \/ flags = 5).
+  { unfold headers_END_HEADERS, headers_END_STREAM in *.
+    match goal with H : _ \/ _ |- _ => destruct H as [H|H]; apply N.eqb_eq in H; lia end. }
+  cbn [encode]. unfold headers_encode, header_block_encode, HEADER_LEN, kind_headers, headers_END_HEADERS.
+  assert (Hb4 : has_bit flags 4 = true) by (destruct Hfl; subst flags; reflexivity). rewrite Hb4.
+  destruct (max + 9 <? 9) eqn:E9; [apply N.ltb_lt in E9; lia|].
+  rewrite lenN_nil.
+  destruct (max + 9 - 9 <? 0) eqn:E0; [apply N.ltb_lt in E0; lia|].
+  destruct (max + 9 - 9 - 0 <? lenN block) eqn:E1; [apply N.ltb_lt in E1; lia|].
+  destruct (16777216 <=? 0 + lenN block) eqn:E2; [apply N.leb_le in E2; lia|].
+  cbn [with_continuations app]. eexists. split; [reflexivity|].
+  replace (0 + lenN block) with (lenN block) by lia.
+  rewrite rfc_parse_encoded, model_parse_encoded by lia.
+  match goal with H : sid <> 0 |- _ => apply N.eqb_neq in H; rename H into Hs end.
+  split.
+  - unfold parse_payload. change (1 =? T_DATA) with false. change (1 =? T_HEADERS) with true. cbv iota.
+    rewrite Hs. cbn [wire_value_of option_map].
+    destruct Hfl; subst flags; (change (flag _ F_PADDED) with false; change (flag _ F_PRIORITY) with false;
+      cbn [pad_length strip_trailing]; reflexivity).
+  - unfold dispatch, headers_load. cbn [mk_head h_kind h_sid h_flag]. change (kind_new 1) with KHeaders. cbv iota.
+    rewrite Hs.
+    destruct Hfl; subst flags; (change (has_bit _ headers_PADDED) with false;
+      change (has_bit _ headers_PRIORITY) with false; cbn [bind]; change (0 <? 0) with false; cbn [bind lift];
+      reflexivity).
+Qed.
+
+Lemma roundtrip_push_promise max sid flags promised block :
+  4 <= max -> max <= FrameConsts.MAX_MAX_FRAME_SIZE -> frame_wf max (FPushPromise sid flags promised block) = true ->
+  4 + lenN block <= max ->
+  exists bs, encode max (FPushPromise sid flags promised block) = EOk bs /\
+    rfc_parse_frame max bs = Accept (wire_value_of (FPushPromise sid flags promised block)) /\
+    (lenN block <> 0 -> model_parse max bs = POk (LdFrame (FPushPromise sid flags promised block))).
+Proof.
+  intros H4 Hmax Hwf Hlen. cbn [frame_wf] in Hwf. unfold sid_ok in Hwf. split_andb. boolprops.
+  unfold FrameConsts.MAX_MAX_FRAME_SIZE in Hmax. unfold headers_END_HEADERS in *. subst flags.
+  cbn [encode]. unfold push_promise_encode, header_block_encode, HEADER_LEN, kind_push_promise, headers_END_HEADERS.
+  change (has_bit 4 4) with true. cbv iota.
+  destruct (max + 9 <? 9) eqn:E9; [apply N.ltb_lt in E9; lia|].
+  change (lenN (enc_u32 promised)) with 4.
+  destruct (max + 9 - 9 <? 4) eqn:E0; [apply N.ltb_lt in E0; lia|].
+  destruct (max + 9 - 9 - 4 <? lenN block) eqn:E1; [apply N.ltb_lt in E1; lia|].
+  destruct (16777216 <=? 4 + lenN block) eqn:E2; [apply N.leb_le in E2; lia|].
+  cbn [with_continuations]. eexists. split; [reflexivity|].
+  replace (4 + lenN block) with (lenN (enc_u32 promised ++ block)) by (rewrite lenN_app; reflexivity).
+  assert (Hl : lenN (enc_u32 promised ++ block) = 4 + lenN block) by (rewrite lenN_app; reflexivity).
+  rewrite rfc_parse_encoded, model_parse_encoded by lia.
+  match goal with H : sid <> 0 |- _ => apply N.eqb_neq in H; rename H into Hs end.
+  assert (Hp : u31_of ((promised / 16777216) mod 256) ((promised / 65536) mod 256) ((promised / 256) mod 256)
+                      (promised mod 256) = promised) by (unfold u31_of; lia).
+  split.
+  - unfold parse_payload. change (5 =? T_DATA) with false. change (5 =? T_HEADERS) with false.
+    change (5 =? T_PRIORITY) with false. change (5 =? T_RST_STREAM) with false. change (5 =? T_SETTINGS) with false.
+    change (5 =? T_PUSH_PROMISE) with true. cbv iota. rewrite Hs.
+    change (flag 4 F_PADDED) with false. cbn [pad_length]. unfold enc_u32. cbn [app strip_trailing].
+    rewrite Hp. reflexivity.
+  - intros Hne. unfold dispatch, push_promise_load. cbn [mk_head h_kind h_sid h_flag].
+    change (kind_new 5) with KPushPromise. cbv iota. rewrite Hs.
+    change (has_bit 4 headers_PADDED) with false. cbn [bind].
+    destruct (lenN (enc_u32 promised ++ block) <? 5) eqn:E5; [apply N.ltb_lt in E5; lia|].
+    unfold enc_u32. cbn [app]. change (0 <? 0) with false. cbn [bind lift].
+    assert (Hp' : fst (parse_sid ((promised / 16777216) mod 256) ((promised / 65536) mod 256)
+                                 ((promised / 256) mod 256) (promised mod 256)) = promised).
+    { unfold parse_sid, dec_u32, STREAM_ID_MASK. cbn [fst]. lia. }
+    rewrite Hp'. reflexivity.
+Qed.
+
+Lemma roundtrip_ping max ack payload :
+  8 <= max -> max <= FrameConsts.MAX_MAX_FRAME_SIZE -> frame_wf max (FPing ack payload) = true ->
+  exists bs, encode max (FPing ack payload) = EOk bs /\
+    rfc_parse_frame max bs = Accept (wire_value_of (FPing ack payload)) /\
+    model_parse max bs = POk (LdFrame (FPing ack payload)).
+Proof.
+  intros H8 Hmax Hwf. cbn [frame_wf] in Hwf. split_andb. boolprops.
+  unfold FrameConsts.MAX_MAX_FRAME_SIZE in Hmax.
+  eexists. split; [reflexivity|]. unfold ping_encode, kind_ping, ping_ACK.
+  assert (Hfl : (if ack then 1 else 0) < 256) by (destruct ack; lia).
+  rewrite rfc_parse_encoded, model_parse_encoded by lia.
+  match goal with H : lenN payload = 8 |- _ => rename H into Hl end.
+  split.
+  - unfold parse_payload. change (6 =? T_DATA) with false. change (6 =? T_HEADERS) with false.
+    change (6 =? T_PRIORITY) with false. change (6 =? T_RST_STREAM) with false. change (6 =? T_SETTINGS) with false.
+    change (6 =? T_PUSH_PROMISE) with false. change (6 =? T_PING) with true. cbv iota.
+    change olen with lenN. rewrite Hl. cbn [wire_value_of]. destruct ack; reflexivity.
+  - unfold dispatch, ping_load. cbn [mk_head h_kind h_sid h_flag]. change (kind_new 6) with KPing. cbv iota.
+    rewrite Hl. destruct ack; reflexivity.
+Qed.
+
+Lemma roundtrip_go_away max last code debug :
+  max <= FrameConsts.MAX_MAX_FRAME_SIZE -> frame_wf max (FGoAway last code debug) = true ->
+  exists bs, encode max (FGoAway last code debug) = EOk bs /\
+    rfc_parse_frame max bs = Accept (wire_value_of (FGoAway last code debug)) /\
+    model_parse max bs = POk (LdFrame (FGoAway last code debug)).
+Proof.
+  intros Hmax Hwf. cbn [frame_wf] in Hwf. unfold sid_ok, u32_ok in Hwf. split_andb. boolprops.
+  unfold FrameConsts.MAX_MAX_FRAME_SIZE in Hmax.
+  eexists. split; [reflexivity|]. unfold go_away_encode, kind_go_away.
+  replace (8 + lenN debug) with (lenN (enc_u32 last ++ enc_u32 code ++ debug))
+    by (rewrite !lenN_app; change (lenN (enc_u32 last)) with 4; change (lenN (enc_u32 code)) with 4; lia).
+  assert (Hl : lenN (enc_u32 last ++ enc_u32 code ++ debug) = 8 + lenN debug)
+    by (rewrite !lenN_app; change (lenN (enc_u32 last)) with 4; change (lenN (enc_u32 code)) with 4; lia).
+  rewrite rfc_parse_encoded, model_parse_encoded by lia.
+  assert (Hp : u31_of ((last / 16777216) mod 256) ((last / 65536) mod 256) ((last / 256) mod 256) (last mod 256) = last)
+    by (unfold u31_of; lia).
+  assert (Hc : u32_of ((code / 16777216) mod 256) ((code / 65536) mod 256) ((code / 256) mod 256) (code mod 256) = code)
+    by (unfold u32_of; lia).
+  split.
+  - unfold parse_payload. change (7 =? T_DATA) with false. change (7 =? T_HEADERS) with false.
+    change (7 =? T_PRIORITY) with false. change (7 =? T_RST_STREAM) with false. change (7 =? T_SETTINGS) with false.
+    change (7 =? T_PUSH_PROMISE) with false. change (7 =? T_PING) with false. change (7 =? T_GOAWAY) with true.
+    cbv iota. change (negb (0 =? 0)) with false. cbv iota. unfold enc_u32. cbn [app]. rewrite Hp, Hc. reflexivity.
+  - unfold dispatch, go_away_load. cbn [mk_head h_kind h_sid h_flag]. change (kind_new 7) with KGoAway. cbv iota.
+    destruct (lenN (enc_u32 last ++ enc_u32 code ++ debug) <? 8) eqn:E8; [apply N.ltb_lt in E8; lia|].
+    unfold enc_u32. cbn [app lift].
+    rewrite dec_u32_u32_of, Hc.
+    assert (Hp' : fst (parse_sid ((last / 16777216) mod 256) ((last / 65536) mod 256)
+                                 ((last / 256) mod 256) (last mod 256)) = last).
+    { unfold parse_sid, dec_u32, STREAM_ID_MASK. cbn [fst]. lia. }
+    rewrite Hp'. reflexivity.
+Qed.
+
+Lemma roundtrip_window_update max sid inc :
+  4 <= max -> max <= FrameConsts.MAX_MAX_FRAME_SIZE -> frame_wf max (FWindowUpdate sid inc) = true ->
+  exists bs, encode max (FWindowUpdate sid inc) = EOk bs /\
+    rfc_parse_frame max bs = Accept (wire_value_of (FWindowUpdate sid inc)) /\
+    model_parse max bs = POk (LdFrame (FWindowUpdate sid inc)).
+Proof.
+  intros H4 Hmax Hwf. cbn [frame_wf] in Hwf. unfold sid_ok in Hwf. split_andb. boolprops.
+  unfold FrameConsts.MAX_MAX_FRAME_SIZE in Hmax.
+  eexists. split; [reflexivity|]. unfold window_update_encode, kind_window_update.
+  change (head_encode 8 0 sid 4) with (head_encode 8 0 sid (lenN (enc_u32 inc))).
+  assert (Hl : lenN (enc_u32 inc) = 4) by reflexivity.
+  rewrite rfc_parse_encoded, model_parse_encoded by lia.
+  assert (Hp : u31_of ((inc / 16777216) mod 256) ((inc / 65536) mod 256) ((inc / 256) mod 256) (inc mod 256) = inc)
+    by (unfold u31_of; lia).
+  split.
+  - unfold parse_payload. change (8 =? T_DATA) with false. change (8 =? T_HEADERS) with false.
+    change (8 =? T_PRIORITY) with false. change (8 =? T_RST_STREAM) with false. change (8 =? T_SETTINGS) with false.
+    change (8 =? T_PUSH_PROMISE) with false. change (8 =? T_PING) with false. change (8 =? T_GOAWAY) with false.
+    change (8 =? T_WINDOW_UPDATE) with true. cbv iota. unfold enc_u32. rewrite Hp.
+    destruct (inc =? 0) eqn:E0; [apply N.eqb_eq in E0; lia | reflexivity].
+  - unfold dispatch, window_update_load. cbn [mk_head h_kind h_sid h_flag]. change (kind_new 8) with KWindowUpdate.
+    cbv iota. rewrite Hl. change (negb (4 =? 4)) with false. cbv iota. unfold enc_u32.
+    assert (Hd : dec_u32 ((inc / 16777216) mod 256) ((inc / 65536) mod 256) ((inc / 256) mod 256) (inc mod 256)
+                 mod SIZE_INCREMENT_MASK = inc) by (unfold dec_u32, SIZE_INCREMENT_MASK; lia).
+    rewrite Hd. destruct (inc =? 0) eqn:E0; [apply N.eqb_eq in E0; lia | reflexivity].
+Qed.
+
+Lemma roundtrip_reset max sid code :
+  4 <= max -> max <= FrameConsts.MAX_MAX_FRAME_SIZE -> frame_wf max (FReset sid code) = true -> sid <> 0 ->
+  exists bs, encode max (FReset sid code) = EOk bs /\
+    rfc_parse_frame max bs = Accept (wire_value_of (FReset sid code)) /\
+    model_parse max bs = POk (LdFrame (FReset sid code)).
+Proof.
+  intros H4 Hmax Hwf Hs. cbn [frame_wf] in Hwf. unfold sid_ok, u32_ok in Hwf. split_andb. boolprops.
+  unfold FrameConsts.MAX_MAX_FRAME_SIZE in Hmax.
+  eexists. split; [reflexivity|]. unfold reset_encode, kind_reset.
+  change (head_encode 3 0 sid 4) with (head_encode 3 0 sid (lenN (enc_u32 code))).
+  assert (Hl : lenN (enc_u32 code) = 4) by reflexivity.
+  rewrite rfc_parse_encoded, model_parse_encoded by lia.
+  assert (Hc : u32_of ((code / 16777216) mod 256) ((code / 65536) mod 256) ((code / 256) mod 256) (code mod 256) = code)
+    by (unfold u32_of; lia).
+  split.
+  - unfold parse_payload. change (3 =? T_DATA) with false. change (3 =? T_HEADERS) with false.
+    change (3 =? T_PRIORITY) with false. change (3 =? T_RST_STREAM) with true. cbv iota.
+    apply N.eqb_neq in Hs. rewrite Hs. unfold enc_u32. rewrite Hc. reflexivity.
+  - unfold dispatch, reset_load. cbn [mk_head h_kind h_sid h_flag]. change (kind_new 3) with KReset.
+    cbv iota. rewrite Hl. change (negb (4 =? 4)) with false. cbv iota. unfold enc_u32.
+    rewrite dec_u32_u32_of, Hc. reflexivity.
+Qed.
+
+(* ---- SETTINGS ---- *)
+
+Lemma parse_params_encode ps :
+  Forall (fun p => fst p < 65536 /\ snd p < 4294967296) ps ->
+  parse_params (pairs_encode ps) = Some ps.
+Proof.
+  induction ps as [|[id v] ps IH]; intros H; [reflexivity|].
+  inversion H as [|x l [Hi Hv] Hrest]; subst. cbn [fst snd] in *.
+  cbn [pairs_encode]. unfold enc_u16, enc_u32. cbn [app parse_params]. rewrite (IH Hrest).
+  assert (E1 : (id / 256) mod 256 * 256 + id mod 256 = id) by lia.
+  assert (E2 : u32_of ((v / 16777216) mod 256) ((v / 65536) mod 256) ((v / 256) mod 256) (v mod 256) = v)
+    by (unfold u32_of; lia).
+  rewrite E1, E2. reflexivity.
+Qed.
+
+Lemma first_param_error_app a b :
+  first_param_error (a ++ b) = match first_param_error a with Some e => Some e | None => first_param_error b end.
+Proof.
+  induction a as [|p a IH]; [reflexivity|]. cbn [app first_param_error].
+  destruct (param_error p); [reflexivity | exact IH].
+Qed.
+
+(* one iteration of the loop of Settings::load on an encoded (id, value) pair *)
+Lemma settings_loop_pair id v rest s :
+  id < 65536 -> v < 4294967296 ->
+  settings_loop (enc_u16 id ++ enc_u32 v ++ rest) s =
+  settings_loop ((id / 256) :: (id mod 256) :: (v / 16777216) :: ((v / 65536) mod 256) :: ((v / 256) mod 256)
+                 :: (v mod 256) :: rest) s.
+Proof.
+  intros Hi Hv. unfold enc_u16, enc_u32. cbn [app].
+  rewrite (N.mod_small (id / 256) 256) by lia. rewrite (N.mod_small (v / 16777216) 256) by lia. reflexivity.
+Qed.
+
+Definition mk_settings fl a b c d e f g : settings :=
+  {| s_flags := fl; s_header_table_size := a; s_enable_push := b; s_max_concurrent_streams := c;
+     s_initial_window_size := d; s_max_frame_size := e; s_max_header_list_size := f;
+     s_enable_connect_protocol := g |}.
+
+Lemma dec_id id : id < 65536 -> dec_u16 ((id / 256) mod 256) (id mod 256) = id.
+Proof. intros. unfold dec_u16. lia. Qed.
+Lemma dec_val v : v < 4294967296 ->
+  dec_u32 ((v / 16777216) mod 256) ((v / 65536) mod 256) ((v / 256) mod 256) (v mod 256) = v.
+Proof. intros. unfold dec_u32. lia. Qed.
+
+Ltac loop_step :=
+  unfold enc_u16, enc_u32; cbn [app settings_loop];
+  rewrite dec_id by lia; rewrite dec_val by lia;
+  unfold setting_id_header_table_size, setting_id_enable_push, setting_id_max_concurrent_streams,
+    setting_id_initial_window_size, setting_id_max_frame_size, setting_id_max_header_list_size,
+    setting_id_enable_connect_protocol;
+  repeat match goal with
+  | |- context [N.eqb ?x ?y] =>
+      lazymatch x with N0 => idtac | Npos _ => idtac end;
+      lazymatch y with N0 => idtac | Npos _ => idtac end;
+      let r := eval vm_compute in (N.eqb x y) in change (N.eqb x y) with r
+  end; cbv iota.
+
+Lemma settings_loop_encoded a b c d e f g :
+  settings_wf (mk_settings 0 a b c d e f g) = true ->
+  settings_loop (pairs_encode (settings_pairs (mk_settings 0 a b c d e f g))) settings_default
+  = Ok (mk_settings 0 a b c d e f g).
+Proof.
+  intros Hwf. unfold settings_wf, opt_ok, u32_ok in Hwf.
+  cbn [mk_settings s_flags s_header_table_size s_enable_push s_max_concurrent_streams s_initial_window_size
+       s_max_frame_size s_max_header_list_size s_enable_connect_protocol] in Hwf.
+  apply andb_true_iff in Hwf as [Hwf Hg]. apply andb_true_iff in Hwf as [Hwf Hf].
+  apply andb_true_iff in Hwf as [Hwf He]. apply andb_true_iff in Hwf as [Hwf Hd].
+  apply andb_true_iff in Hwf as [Hwf Hc]. apply andb_true_iff in Hwf as [Hwf Hb].
+  apply andb_true_iff in Hwf as [_ Ha].
+  unfold settings_pairs.
+  cbn [mk_settings s_flags s_header_table_size s_enable_push s_max_concurrent_streams s_initial_window_size
+       s_max_frame_size s_max_header_list_size s_enable_connect_protocol].
+  unfold settings_default.
+  (* field by field; the state after each field is the same whether it is present or not *)
+  assert (H1 : forall rest, settings_loop (pairs_encode (match a with Some v => [(setting_id_header_table_size, v)] | None => [] end ++ rest))
+                 (mk_settings 0 None None None None None None None)
+               = settings_loop (pairs_encode rest) (mk_settings 0 a None None None None None None)).
+  { intros rest. destruct a as [v|]; [|reflexivity]. apply N.ltb_lt in Ha.
+    cbn [app pairs_encode]. unfold setting_id_header_table_size. loop_step. reflexivity. }
+  assert (H2 : forall rest, settings_loop (pairs_encode (match b with Some v => [(setting_id_enable_push, v)] | None => [] end ++ rest))
+                 (mk_settings 0 a None None None None None None)
+               = settings_loop (pairs_encode rest) (mk_settings 0 a b None None None None None)).
+  { intros rest. destruct b as [v|]; [|reflexivity]. pose proof Hb as Hb'. apply N.leb_le in Hb'.
+    cbn [app pairs_encode]. unfold setting_id_enable_push. loop_step. rewrite Hb. reflexivity. }
+  assert (H3 : forall rest, settings_loop (pairs_encode (match c with Some v => [(setting_id_max_concurrent_streams, v)] | None => [] end ++ rest))
+                 (mk_settings 0 a b None None None None None)
+               = settings_loop (pairs_encode rest) (mk_settings 0 a b c None None None None)).
+  { intros rest. destruct c as [v|]; [|reflexivity]. apply N.ltb_lt in Hc.
+    cbn [app pairs_encode]. unfold setting_id_max_concurrent_streams. loop_step. reflexivity. }
+  assert (H4 : forall rest, settings_loop (pairs_encode (match d with Some v => [(setting_id_initial_window_size, v)] | None => [] end ++ rest))
+                 (mk_settings 0 a b c None None None None)
+               = settings_loop (pairs_encode rest) (mk_settings 0 a b c d None None None)).
+  { intros rest. destruct d as [v|]; [|reflexivity]. apply N.leb_le in Hd. unfold MAX_INITIAL_WINDOW_SIZE in Hd.
+    cbn [app pairs_encode]. unfold setting_id_initial_window_size. loop_step. unfold MAX_INITIAL_WINDOW_SIZE.
+    destruct (2147483647 <? v) eqn:Ev; [apply N.ltb_lt in Ev; lia | reflexivity]. }
+  assert (H5 : forall rest, settings_loop (pairs_encode (match e with Some v => [(setting_id_max_frame_size, v)] | None => [] end ++ rest))
+                 (mk_settings 0 a b c d None None None)
+               = settings_loop (pairs_encode rest) (mk_settings 0 a b c d e None None)).
+  { intros rest. destruct e as [v|]; [|reflexivity]. pose proof He as He'.
+    apply andb_true_iff in He' as [He1 He2]. apply N.leb_le in He1, He2.
+    unfold DEFAULT_MAX_FRAME_SIZE, FrameConsts.MAX_MAX_FRAME_SIZE in He1, He2.
+    cbn [app pairs_encode]. unfold setting_id_max_frame_size. loop_step. rewrite He. reflexivity. }
+  assert (H6 : forall rest, settings_loop (pairs_encode (match f with Some v => [(setting_id_max_header_list_size, v)] | None => [] end ++ rest))
+                 (mk_settings 0 a b c d e None None)
+               = settings_loop (pairs_encode rest) (mk_settings 0 a b c d e f None)).
+  { intros rest. destruct f as [v|]; [|reflexivity]. apply N.ltb_lt in Hf.
+    cbn [app pairs_encode]. unfold setting_id_max_header_list_size. loop_step. reflexivity. }
+  assert (H7 : settings_loop (pairs_encode (match g with Some v => [(setting_id_enable_connect_protocol, v)] | None => [] end))
+                 (mk_settings 0 a b c d e f None)
+               = Ok (mk_settings 0 a b c d e f g)).
+  { destruct g as [v|]; [|reflexivity]. pose proof Hg as Hg'. apply N.leb_le in Hg'.
+    cbn [pairs_encode]. unfold setting_id_enable_connect_protocol. rewrite app_nil_r. loop_step. rewrite Hg. reflexivity. }
+  change {| s_flags := 0; s_header_table_size := None; s_enable_push := None; s_max_concurrent_streams := None;
+            s_initial_window_size := None; s_max_frame_size := None; s_max_header_list_size := None;
+            s_enable_connect_protocol := None |} with (mk_settings 0 None None None None None None None).
+  rewrite H1, H2, H3, H4, H5, H6. exact H7.
+Qed.
+
+Definition opt_pair (id : N) (o : option N) : list (N * N) :=
+  match o with Some v => [(id, v)] | None => [] end.
+
+Lemma Forall_opt_pair (P : N * N -> Prop) id o :
+  (forall v, o = Some v -> P (id, v)) -> Forall P (opt_pair id o).
+Proof. intros H. destruct o as [v|]; cbn [opt_pair]; [constructor; [apply H; reflexivity | constructor] | constructor]. Qed.
+
+Lemma fpe_opt_pair id o :
+  (forall v, o = Some v -> param_error (id, v) = None) -> first_param_error (opt_pair id o) = None.
+Proof.
+  intros H. destruct o as [v|]; cbn [opt_pair first_param_error]; [rewrite (H v eq_refl)|]; reflexivity.
+Qed.
+
+Lemma length_opt_pair id o : (length (opt_pair id o) <= 1)%nat.
+Proof. destruct o; cbn [opt_pair length]; lia. Qed.
+
+Lemma settings_pairs_opt s :
+  settings_pairs s =
+  opt_pair setting_id_header_table_size (s_header_table_size s) ++
+  opt_pair setting_id_enable_push (s_enable_push s) ++
+  opt_pair setting_id_max_concurrent_streams (s_max_concurrent_streams s) ++
+  opt_pair setting_id_initial_window_size (s_initial_window_size s) ++
+  opt_pair setting_id_max_frame_size (s_max_frame_size s) ++
+  opt_pair setting_id_max_header_list_size (s_max_header_list_size s) ++
+  opt_pair setting_id_enable_connect_protocol (s_enable_connect_protocol s).
+Proof. reflexivity. Qed.
+
+Lemma settings_pairs_bounds s : settings_wf s = true ->
+  Forall (fun p => fst p < 65536 /\ snd p < 4294967296) (settings_pairs s) /\
+  first_param_error (settings_pairs s) = None /\
+  N.of_nat (length (settings_pairs s)) <= 7.
+Proof.
+  intros Hwf. unfold settings_wf, opt_ok, u32_ok in Hwf.
+  apply andb_true_iff in Hwf as [Hwf Hg]. apply andb_true_iff in Hwf as [Hwf Hf].
+  apply andb_true_iff in Hwf as [Hwf He]. apply andb_true_iff in Hwf as [Hwf Hd].
+  apply andb_true_iff in Hwf as [Hwf Hc]. apply andb_true_iff in Hwf as [Hwf Hb].
+  apply andb_true_iff in Hwf as [_ Ha].
+  rewrite settings_pairs_opt.
+  unfold setting_id_header_table_size, setting_id_enable_push, setting_id_max_concurrent_streams,
+    setting_id_initial_window_size, setting_id_max_frame_size, setting_id_max_header_list_size,
+    setting_id_enable_connect_protocol, MAX_INITIAL_WINDOW_SIZE, DEFAULT_MAX_FRAME_SIZE, MAX_MAX_FRAME_SIZE in *.
+  split; [|split].
+  - apply Forall_app; split; [|apply Forall_app; split; [|apply Forall_app; split; [|apply Forall_app; split;
+      [|apply Forall_app; split; [|apply Forall_app; split]]]]]; apply Forall_opt_pair; intros v Ev; cbn [fst snd].
+    + rewrite Ev in Ha. apply N.ltb_lt in Ha. lia.
+    + rewrite Ev in Hb. apply N.leb_le in Hb. lia.
+    + rewrite Ev in Hc. apply N.ltb_lt in Hc. lia.
+    + rewrite Ev in Hd. apply N.leb_le in Hd. lia.
+    + rewrite Ev in He. apply andb_true_iff in He as [_ He]. apply N.leb_le in He. lia.
+    + rewrite Ev in Hf. apply N.ltb_lt in Hf. lia.
+    + rewrite Ev in Hg. apply N.leb_le in Hg. lia.
+  - rewrite !first_param_error_app.
+    rewrite (fpe_opt_pair 1) by (intros; reflexivity).
+    rewrite (fpe_opt_pair 2) by (intros v Ev; rewrite Ev in Hb; cbn [param_error];
+      change (2 =? S_ENABLE_PUSH) with true; cbv iota; rewrite Hb; reflexivity).
+    rewrite (fpe_opt_pair 3) by (intros; reflexivity).
+    rewrite (fpe_opt_pair 4) by (intros v Ev; rewrite Ev in Hd; cbn [param_error];
+      change (4 =? S_ENABLE_PUSH) with false; change (4 =? S_INITIAL_WINDOW_SIZE) with true; cbv iota;
+      unfold MAX_FLOW_WINDOW; rewrite Hd; reflexivity).
+    rewrite (fpe_opt_pair 5) by (intros v Ev; rewrite Ev in He; cbn [param_error];
+      change (5 =? S_ENABLE_PUSH) with false; change (5 =? S_INITIAL_WINDOW_SIZE) with false;
+      change (5 =? S_MAX_FRAME_SIZE) with true; cbv iota;
+      unfold FRAME_SIZE_LOWER_BOUND, FRAME_SIZE_UPPER_BOUND; rewrite He; reflexivity).
+    rewrite (fpe_opt_pair 6) by (intros; reflexivity).
+    apply fpe_opt_pair. intros v Ev. rewrite Ev in Hg. cbn [param_error].
+    change (8 =? S_ENABLE_PUSH) with false. change (8 =? S_INITIAL_WINDOW_SIZE) with false.
+    change (8 =? S_MAX_FRAME_SIZE) with false. change (8 =? S_ENABLE_CONNECT_PROTOCOL) with true. cbv iota.
+    rewrite Hg. reflexivity.
+  - rewrite !app_length.
+    pose proof (length_opt_pair 1 (s_header_table_size s)). pose proof (length_opt_pair 2 (s_enable_push s)).
+    pose proof (length_opt_pair 3 (s_max_concurrent_streams s)). pose proof (length_opt_pair 4 (s_initial_window_size s)).
+    pose proof (length_opt_pair 5 (s_max_frame_size s)). pose proof (length_opt_pair 6 (s_max_header_list_size s)).
+    pose proof (length_opt_pair 8 (s_enable_connect_protocol s)). lia.
+Qed.
+
+Lemma lenN_pairs_encode ps : lenN (pairs_encode ps) = 6 * N.of_nat (length ps).
+Proof.
+  induction ps as [|[id v] ps IH]; [reflexivity|].
+  cbn [pairs_encode length]. rewrite !lenN_app, IH.
+  change (lenN (enc_u16 id)) with 2. change (lenN (enc_u32 v)) with 4. lia.
+Qed.
+
+Lemma opt_pair_nil id o : opt_pair id o = [] -> o = None.
+Proof. destruct o; [discriminate | reflexivity]. Qed.
+
+Lemma roundtrip_settings max s :
+  42 <= max -> max <= MAX_MAX_FRAME_SIZE -> frame_wf max (FSettings s) = true ->
+  exists bs, encode max (FSettings s) = EOk bs /\
+    rfc_parse_frame max bs = Accept (wire_value_of (FSettings s)) /\
+    model_parse max bs = POk (LdFrame (FSettings s)).
+Proof.
+  intros H42 Hmax Hwf. cbn [frame_wf] in Hwf. unfold MAX_MAX_FRAME_SIZE in Hmax.
+  pose proof (settings_pairs_bounds s Hwf) as (Hall & Hfpe & Hlen).
+  eexists. split; [reflexivity|]. unfold settings_encode, kind_settings.
+  rewrite <- lenN_pairs_encode.
+  assert (Hl : lenN (pairs_encode (settings_pairs s)) <= 42) by (rewrite lenN_pairs_encode; lia).
+  pose proof Hwf as Hwf0. unfold settings_wf in Hwf0.
+  repeat (apply andb_true_iff in Hwf0 as [Hwf0 _]).
+  apply orb_true_iff in Hwf0 as [Hfl|Hfl].
+  - (* ordinary SETTINGS *)
+    apply N.eqb_eq in Hfl.
+    rewrite Hfl. rewrite rfc_parse_encoded, model_parse_encoded by lia.
+    split.
+    + unfold parse_payload. change (4 =? T_DATA) with false. change (4 =? T_HEADERS) with false.
+      change (4 =? T_PRIORITY) with false. change (4 =? T_RST_STREAM) with false. change (4 =? T_SETTINGS) with true.
+      cbv iota. change (negb (0 =? 0)) with false. change (flag 0 F_ACK) with false. cbv iota.
+      rewrite (parse_params_encode _ Hall), Hfpe. cbn [wire_value_of]. rewrite Hfl. reflexivity.
+    + unfold dispatch, settings_load. cbn [mk_head h_kind h_sid h_flag]. change (kind_new 4) with KSettings.
+      cbv iota. change (negb (0 =? 0)) with false. cbv iota.
+      change (has_bit (keep_bit 0 settings_ACK) settings_ACK) with false. cbv iota.
+      rewrite lenN_pairs_encode.
+      assert (E6 : (6 * N.of_nat (length (settings_pairs s))) mod 6 =? 0 = true) by (apply N.eqb_eq; lia).
+      rewrite E6. cbn [negb].
+      destruct s as [fl a b c d e f g]. cbn [s_flags] in Hfl. subst fl.
+      change {| s_flags := 0; s_header_table_size := a; s_enable_push := b; s_max_concurrent_streams := c;
+                s_initial_window_size := d; s_max_frame_size := e; s_max_header_list_size := f;
+                s_enable_connect_protocol := g |} with (mk_settings 0 a b c d e f g) in *.
+      rewrite (settings_loop_encoded a b c d e f g Hwf). reflexivity.
+  - (* ACK: no parameters *)
+    apply andb_true_iff in Hfl as [Hfl Hnil]. apply N.eqb_eq in Hfl, Hnil. unfold settings_ACK in Hfl.
+    assert (Hps : settings_pairs s = []).
+    { rewrite lenN_pairs_encode in Hnil. destruct (settings_pairs s); [reflexivity | cbn [length] in Hnil; lia]. }
+    rewrite Hfl, Hps. cbn [pairs_encode]. rewrite rfc_parse_encoded, model_parse_encoded by (rewrite ?lenN_nil; lia).
+    split.
+    + cbn [wire_value_of]. rewrite Hfl, Hps. reflexivity.
+    + unfold dispatch, settings_load. cbn [mk_head h_kind h_sid h_flag]. change (kind_new 4) with KSettings.
+      cbv iota. change (negb (0 =? 0)) with false. cbv iota.
+      change (has_bit (keep_bit 1 settings_ACK) settings_ACK) with true. cbv iota.
+      change (negb (lenN [] =? 0)) with false. cbv iota. cbn [lift].
+      rewrite settings_pairs_opt in Hps.
+      apply app_eq_nil in Hps as [H1 Hps]. apply app_eq_nil in Hps as [H2 Hps]. apply app_eq_nil in Hps as [H3 Hps].
+      apply app_eq_nil in Hps as [H4 Hps]. apply app_eq_nil in Hps as [H5 Hps]. apply app_eq_nil in Hps as [H6 H7].
+      apply opt_pair_nil in H1, H2, H3, H4, H5, H6, H7.
+      destruct s as [fl a b c d e f g]. cbn [s_flags s_header_table_size s_enable_push s_max_concurrent_streams
+        s_initial_window_size s_max_frame_size s_max_header_list_size s_enable_connect_protocol] in *.
+      subst. reflexivity.
+Qed.
+
+(* ---------------------------------------------------------------------------------------- *)
+(* C12, serialise-then-parse, frames that fit into one wire frame (HEADERS / PUSH_PROMISE whose
+   block needs CONTINUATION frames are treated in Proofs/ReadBufProofs.v, C12_roundtrip_stream).
+
+   For every value [f] the encoder can be handed ([frame_wf]), the octets [encode] produces are
+   parsed by the independent RFC parser to exactly [wire_value_of f], and by the model's own
+   parser back to [f].  The single exception on the model side is the documented deviation: a
+   PUSH_PROMISE with an empty block is not parsed back by PushPromise::load (h2 never produces
+   one: the block always carries the request pseudo-header fields). *)
+Theorem C12_roundtrip : forall max f,
+  42 <= max -> max <= MAX_MAX_FRAME_SIZE ->
+  frame_wf max f = true -> single_frame max f = true ->
+  exists bs,
+    encode max f = EOk bs /\
+    rfc_parse_frame max bs = Accept (wire_value_of f) /\
+    (pp_block_nonempty f = true -> model_parse max bs = POk (LdFrame f)).
+Proof.
+  intros max f H42 Hmax Hwf Hsingle.
+  destruct f as [sid flags pad data | sid flags dep block | sid dep | sid flags promised block | s
+                 | ack payload | last code debug | sid inc | sid code].
+  - destruct (roundtrip_data max sid flags pad data Hmax Hwf) as (bs & H1 & H2 & H3). eauto.
+  - cbn [single_frame] in Hsingle. apply N.leb_le in Hsingle.
+    destruct (roundtrip_headers max sid flags dep block Hmax Hwf Hsingle) as (bs & H1 & H2 & H3). eauto.
+  - discriminate.
+  - cbn [single_frame] in Hsingle. apply N.leb_le in Hsingle.
+    destruct (roundtrip_push_promise max sid flags promised block ltac:(lia) Hmax Hwf Hsingle) as (bs & H1 & H2 & H3).
+    exists bs. split; [exact H1|]. split; [exact H2|]. intros Hne. apply H3.
+    cbn [pp_block_nonempty] in Hne. apply negb_true_iff, N.eqb_neq in Hne. exact Hne.
+  - destruct (roundtrip_settings max s H42 Hmax Hwf) as (bs & H1 & H2 & H3). eauto.
+  - destruct (roundtrip_ping max ack payload ltac:(lia) Hmax Hwf) as (bs & H1 & H2 & H3). eauto.
+  - destruct (roundtrip_go_away max last code debug Hmax Hwf) as (bs & H1 & H2 & H3). eauto.
+  - destruct (roundtrip_window_update max sid inc ltac:(lia) Hmax Hwf) as (bs & H1 & H2 & H3). eauto.
+  - assert (Hs : sid <> 0).
+    { cbn [frame_wf] in Hwf. apply andb_true_iff in Hwf as [Hwf _]. apply andb_true_iff in Hwf as [_ Hwf].
+      apply negb_true_iff, N.eqb_neq in Hwf. exact Hwf. }
+    destruct (roundtrip_reset max sid code ltac:(lia) Hmax Hwf Hs) as (bs & H1 & H2 & H3). eauto.
+Qed.
+
+(* the hypotheses are satisfiable, for each frame type *)
+Example frame_wf_examples :
+  forallb (fun f => frame_wf 16384 f && single_frame 16384 f && pp_block_nonempty f)
+    [ FData 1 data_END_STREAM None [104; 105];
+      FHeaders 3 (headers_END_HEADERS + headers_END_STREAM) None [130; 135];
+      FPushPromise 1 headers_END_HEADERS 2 [130];
+      FSettings {| s_flags := 0; s_header_table_size := Some 4096; s_enable_push := Some 0;
+                   s_max_concurrent_streams := None; s_initial_window_size := Some 65535;
+                   s_max_frame_size := Some 16384; s_max_header_list_size := None;
+                   s_enable_connect_protocol := Some 1 |};
+      FSettings settings_ack;
+      FPing true [1; 2; 3; 4; 5; 6; 7; 8];
+      FGoAway 7 reason_ENHANCE_YOUR_CALM [116; 111; 111];
+      FWindowUpdate 0 65535;
+      FReset 5 reason_CANCEL ] = true.
+Proof. vm_compute. reflexivity. Qed.
+
+Example C12_roundtrip_example :
+  encode 16384 (FData 1 data_END_STREAM None [104; 105]) = EOk [0; 0; 2; 0; 1; 0; 0; 0; 1; 104; 105] /\
+  rfc_parse_frame 16384 [0; 0; 2; 0; 1; 0; 0; 0; 1; 104; 105] = Accept (WData 1 true None [104; 105]) /\
+  model_parse 16384 [0; 0; 2; 0; 1; 0; 0; 0; 1; 104; 105] = POk (LdFrame (FData 1 1 None [104; 105])).
+Proof. vm_compute. auto. Qed.
+
+(* ---------------------------------------------------------------------------------------- *)
+(* the documented deviations, one concrete frame each (both parsers evaluated) *)
+
+(* PUSH_PROMISE, stream 1, promised stream 2, empty fragment, END_HEADERS clear: legal per RFC 9113
+   6.6 (a CONTINUATION would follow); PushPromise::load wants 5 octets and answers MalformedMessage *)
+Example deviation_push_promise_empty_fragment :
+  let bs := [0; 0; 4; 5; 0; 0; 0; 0; 1; 0; 0; 0; 2] in
+  deviation_of bs = DevPushPromiseEmptyFragment /\
+  rfc_parse_frame 16384 bs = Accept (WPushPromise 1 false 2 []) /\
+  model_parse 16384 bs = PErr KPushPromise 1 MalformedMessage.
+Proof. vm_compute. auto. Qed.
+
+(* GOAWAY on stream 3: RFC 9113 6.8 PROTOCOL_ERROR; GoAway::load never sees the stream id *)
+Example deviation_goaway_stream_id :
+  let bs := [0; 0; 8; 7; 0; 0; 0; 0; 3; 0; 0; 0; 5; 0; 0; 0; 0] in
+  deviation_of bs = DevGoAwayStreamId /\
+  rfc_parse_frame 16384 bs = Reject PROTOCOL_ERROR /\
+  model_parse 16384 bs = POk (LdFrame (FGoAway 5 0 [])).
+Proof. vm_compute. auto. Qed.
+
+(* RST_STREAM on stream 0: refused by the RFC grammar; the codec passes it on, the check lives in
+   proto/streams/streams.rs recv_reset *)
+Example deviation_reset_stream_zero :
+  let bs := [0; 0; 4; 3; 0; 0; 0; 0; 0; 0; 0; 0; 8] in
+  deviation_of bs = DevResetStreamZero /\
+  rfc_parse_frame 16384 bs = Reject PROTOCOL_ERROR /\
+  model_parse 16384 bs = POk (LdFrame (FReset 0 8)).
+Proof. vm_compute. auto. Qed.
+
+(* CONTINUATION on stream 0: the single-frame loader does not look at the stream id; decode_frame's
+   book-keeping refuses it (Proofs/ReadBufProofs.v continuation_stream_zero_refused) *)
+Example deviation_continuation_stream_zero :
+  let bs := [0; 0; 1; 9; 4; 0; 0; 0; 0; 130] in
+  deviation_of bs = DevContinuationStreamZero /\
+  rfc_parse_frame 16384 bs = Reject PROTOCOL_ERROR /\
+  model_parse 16384 bs = POk (LdContinuation 0 true [130]).
+Proof. vm_compute. auto. Qed.
+
+(* where h2 and the RFC name different error *codes* for the same rejected frame (informational;
+   the property speaks of FRAME_SIZE_ERROR only for frames above the size limit): a PING of
+   7 octets is FRAME_SIZE_ERROR in RFC 9113 6.7, h2 maps every `load` failure to PROTOCOL_ERROR *)
+Example error_code_latitude_ping :
+  let bs := [0; 0; 7; 6; 0; 0; 0; 0; 0; 1; 2; 3; 4; 5; 6; 7] in
+  rfc_parse_frame 16384 bs = Reject FRAME_SIZE_ERROR /\
+  model_parse 16384 bs = PErr KPing 0 BadFrameSize.
+Proof. vm_compute. auto. Qed.
+
+(* the hypotheses of C12_parse_agrees_with_rfc are satisfiable, by accepted and by rejected frames *)
+Example C12_parse_agrees_example :
+  let ok := [0; 0; 5; 0; 9; 128; 0; 0; 3; 2; 104; 105; 0; 0] in      (* padded DATA, reserved bit set *)
+  let bad := [0; 0; 2; 0; 8; 0; 0; 0; 3; 2; 104] in                    (* padding >= payload *)
+  bytes_ok ok = true /\ deviation_of ok = DevNone /\
+  model_parse 16384 ok = POk (LdFrame (FData 3 (data_END_STREAM + data_PADDED) (Some 2) [104; 105])) /\
+  rfc_parse_frame 16384 ok = Accept (WData 3 true (Some 2) [104; 105]) /\
+  bytes_ok bad = true /\ deviation_of bad = DevNone /\
+  model_parse 16384 bad = PErr KData 3 TooMuchPadding /\
+  rfc_parse_frame 16384 bad = Reject PROTOCOL_ERROR.
+Proof. vm_compute. repeat split; reflexivity. Qed.
